@@ -7,7 +7,7 @@ from harness import core, py2lean, instantiate
 from harness.core import Outcome, f2b, b2f
 
 ID = "C17"
-LEAN_TARGETS = ["BeyondVerif.Props.C17", "BeyondVerif.Witness.C17"]
+LEAN_TARGETS = ["BeyondVerif.Props.C17", "BeyondVerif.Props.C17Burn", "BeyondVerif.Props.C17Struct", "BeyondVerif.Props.C17Gauss", "BeyondVerif.Witness.C17"]
 THEOREMS = [
     "BeyondVerif.C17.qsw_axes",
     "BeyondVerif.C17.tnw_axes",
@@ -34,6 +34,36 @@ THEOREMS = [
     "BeyondVerif.C17.dkep2dv_first_order_a",
     "BeyondVerif.C17.dkep2dv_dv_a",
     "BeyondVerif.C17.dkep2aol_splits",
+    "BeyondVerif.C17.kepContAccel_magnitude",
+    "BeyondVerif.C17.into_uses_latest_partial",
+    "BeyondVerif.C17W.stale_axes_after_reregistration_under_farther_parent",
+    "BeyondVerif.C17W.reregistration_under_same_or_nearer_parent_is_fine",
+    "BeyondVerif.C17.tableaux_consistent",
+    "BeyondVerif.C17.thrust_time_by_stage_counts",
+    "BeyondVerif.C17.whole_steps_thrust_time",
+    "BeyondVerif.C17.whole_steps_full_dv",
+    "BeyondVerif.C17.whole_steps_full_dv_rk4",
+    "BeyondVerif.C17.whole_steps_full_dv_euler",
+    "BeyondVerif.C17.first_date_burn_thrust_time",
+    "BeyondVerif.C17.first_date_burn_rk4",
+    "BeyondVerif.C17.burn_thrust_time_within_one_step",
+    "BeyondVerif.C17.burn_within_one_step_rk4",
+    "BeyondVerif.C17.burn_within_one_step_euler",
+    "BeyondVerif.C17.accel_program",
+    "BeyondVerif.C17.accel_thrust_once",
+    "BeyondVerif.C17.thrust_independent_of_bodies",
+    "BeyondVerif.C17.accepted_spelling_selects_local",
+    "BeyondVerif.C17.other_names_select_identity",
+    "BeyondVerif.C17.keplerian_continuous_is_tnw",
+    "BeyondVerif.C17.orbit2frame_names",
+    "BeyondVerif.C17.reference_never_modified",
+    "BeyondVerif.C17.repeated_conversions_agree",
+    "BeyondVerif.C17.conversion_reads_latest",
+    "BeyondVerif.C17.gauss_inclination",
+    "BeyondVerif.C17.gauss_node",
+    "BeyondVerif.C17.dkep2dv_first_order_i",
+    "BeyondVerif.C17.dkep2dv_first_order_Omega",
+    "BeyondVerif.C17.dkep2dv_closed_form",
     "BeyondVerif.C17W.short_burn_delivers_nothing",
     "BeyondVerif.C17W.straddling_burn_delivers_too_much",
     "BeyondVerif.C17W.half_step_burn_rk4",
@@ -41,56 +71,96 @@ THEOREMS = [
 ]
 LEVEL_TEXT = ("Lean theorems about code translated from the source on every run: to_qsw/to_tnw (local.py) are proper rotations (M M^T = 1, det = 1) with rows "
               "(r^ | v^, w^ x first, w^) for every state with r x v != 0; a QSW/TNW/inertial maneuver vector is projected with exactly its magnitude and "
-              "components; the orbit-attached frame puts its orbit at the origin and round-trips; over integer microseconds, for every partition of a span "
+              "components, every spelling the constructors accept for a local frame selecting that frame's matrix (name tables regenerated from the constructors, "
+              "the `in (...)` tests, to_local and orbit2frame); the orbit-attached frame puts its orbit at the origin and round-trips, no operation of a session writes "
+              "to the reference object and repeated conversions read the same; over integer microseconds, for every partition of a span "
               "into positive steps (fixed or adaptive) ImpulsiveMan.check fires in exactly one step, the one containing the date (delay < that step), for each "
-              "of several maneuvers independently; ContinuousMan.check is start <= t < stop; dkep2dv (man.py) yields, for every input, the "
-              "velocity v_final rotated by dangle (law of cosines), and realises da to first order (HasDerivAt = 1); dkep2aol splits the plane change as requested. "
-              "Projection, attached frame and step loop are hand-modelled and tied by differential correspondence with the real classes and KeplerNum.")
-LEVEL_NOTE = ("proof (partial): 'a continuous burn delivers its full delta-v' is false of the code for burns not aligned with the steps (known finding, kernel-checked "
-              "witnesses) and its quadrature is oracle-only; first-order realisation of (di, dOmega) is proved only up to the velocity geometry (triangle + "
-              "dkep2aol split), the Gauss-equation step is oracle-only; "
+              "of several maneuvers independently; ContinuousMan.check is start <= t < stop and the step loop, with the Butcher nodes/weights regenerated and stage dates "
+              "rounded as Python rounds them, delivers exactly n*h*accel for a burn of n whole fixed steps from a grid date with one step before it (every tableau with "
+              "nodes in [0,1] and weights summing to 1, every n, h, direction), (n - closing weight)*h from the first date, and within one step of the duration for any "
+              "burn (Euler, RK4); _accel's loop program, regenerated from the AST, adds the thrust once per evaluation whatever the number of bodies; dkep2dv (man.py) "
+              "yields, for every input, the velocity v_final rotated by dangle (law of cosines), realises da to first order (HasDerivAt = 1) and, through to_tnw and the "
+              "inclination / node slices of _cartesian_to_keplerian, di and dOmega to first order at the argument of latitude of dkep2aol (Gauss equations as HasDerivAt "
+              "at every argument of latitude, finite for r, vt > 0, 0 < i < pi). "
+              "Projection, attached frame, registry and step loop are hand-modelled and tied by differential correspondence with the real classes and KeplerNum.")
+LEVEL_NOTE = ("proof (partial): 'a continuous burn delivers its full delta-v' is false of the code for burns not aligned with the steps and for rk4 burns starting on the "
+              "first date (two open findings, kernel-checked witnesses, exact deficit proved); 'converts to and from its parent frame without loss' is false after a name is "
+              "registered again under a farther parent (open finding, witness; into_uses_latest_partial covers registrations under one parent); the burn theorems are for a "
+              "constant (inertial) thrust vector, a QSW/TNW burn's direction follows the state (oracle only); first-order realisation of (di, dOmega) is one-sided in the "
+              "scale of the request (dv_w = |.| >= 0) and exact only where the speed is all transverse (factor v/vt otherwise, stated); "
               "R -> double gap covered by tolerance-bounded correspondence; Lean kernel + propext/Classical.choice/Quot.sound; py2lean translator and harness trusted")
-TECHNIQUE = ("Lean 4 proof (ring/linear_combination identities on 3-vectors, HasDerivAt, induction over step lists with omega, kernel decide witnesses) over "
-             "formulas regenerated from the Python AST; differential correspondence for the hand-modelled parts")
+TECHNIQUE = ("Lean 4 proof (ring/linear_combination identities on 3-vectors, HasDerivAt / HasDerivWithinAt chains through arccos, arctan, sqrt, induction over step lists "
+             "and stage lists with omega/nlinarith, decide on regenerated tableaux and name tables, kernel decide witnesses) over formulas, tables and loop structure "
+             "regenerated from the Python AST; differential correspondence (incl. operation histories on one object) for the hand-modelled parts")
 TRUSTED = [
     "harness/py2lean.py: translate_vec_function (to_qsw, to_tnw -> Generated/Local{F,R}.lean), translate_slice (dkep2dv -> Generated/Dkep{F,R}.lean), "
-    "Tr.expr (dkep2aol, ImpulsiveMan.check, ContinuousMan.check -> Generated/ManWindow.lean); Butcher nodes read from the live KeplerNum.BUTCHER",
-    "lean/templates/Vec3.tpl (numpy cross / norm / matrix-vector products on 3-vectors), lean/templates/Man.tpl (to_local dispatch, projection, attached frame), "
-    "lean/BeyondVerif/Model/ManWin.lean (step loop of KeplerNum._iter/_make_step), lean/BeyondVerif/Model/FrameReg.lean (a frame name means its latest "
-    "registration; conversions leave no trace): hand-written, tied by the correspondence run",
+    "Tr.expr (dkep2aol, ImpulsiveMan.check, ContinuousMan.check -> Generated/ManWindow.lean), TrFn (i, node arguments of _cartesian_to_keplerian -> Generated/KepPlane{F,R}.lean)",
+    "harness/props/C17.py extractors, each refusing shapes it does not know: Butcher nodes as exact float ratios and weights over a common denominator from the live "
+    "KeplerNum.BUTCHER (-> Generated/ManWindow.lean); the loop nesting of KeplerNum._accel and its attraction term matched verbatim (-> Generated/AccelLoopSrc.lean, "
+    "Generated/AccelSrc{F,R}.lean); constructor normalisation, `in (...)` tuples, to_local's if/elif chain, orbit2frame's check (-> Generated/FrameNames.lean)",
+    "lean/templates/Vec3.tpl (numpy cross / norm / matrix-vector products on 3-vectors), lean/templates/Man.tpl (to_local dispatch, projection, attached frame, accelOf, "
+    "kepContAccel), lean/BeyondVerif/Model/ManWin.lean (step loop of KeplerNum._iter/_make_step, divRound = datetime._divide_and_round, thrustUnits), "
+    "lean/BeyondVerif/Model/AccelLoop.lean (interpreter of the loop program), lean/BeyondVerif/Model/FrameName.lean (reading of the name tables), "
+    "lean/BeyondVerif/Model/FrameReg.lean (a frame name means its latest registration, except that a conversion into it reaches the nearest node of that name; "
+    "conversions leave no trace; the store of reference objects): hand-written, tied by the correspondence run",
+    "lean/BeyondVerif/Lemmas/Gauss.lean: the parametrisation of a state by (r, vr, vt, i, Omega, u) (the formulas of _keplerian_to_cartesian's position, hand-written)",
     "numpy / libm double arithmetic vs R: tolerance 1e-9 relative (1e-12 for rotation entries; dv_t of dkep2dv up to 64 ulp of the speed)",
     "Date comparisons are exact at millisecond granularity (Date compares float MJD, resolution ~0.6 us: property C03)",
 ]
 ASSUMPTIONS = [
-    "theorems are over R (frames, dkep2dv) and over Z microseconds (windows); the implementation computes in IEEE doubles and compares dates as float MJD",
+    "theorems are over R (frames, dkep2dv, Gauss) and over Z microseconds (windows, quadrature); the implementation computes in IEEE doubles and compares dates as float MJD",
     "np.linalg.inv(expand(M^T)) in Orientation.convert_to is modelled as expand(M) (justified by qsw/tnw_proper_rotation, tied by correspondence)",
     "steps of a propagation are positive (forward propagation); KeplerNum does not apply impulses on backward steps (check is never true for step < 0)",
     "impulses falling in the same step are applied one after the other in list order, each in the local axes of the state it finds (oracle mirrors this)",
-    "first-order realisation of (di, dOmega) is stated at the argument of latitude given by dkep2aol and at an apsis (flight-path angle 0), as the docstring prescribes",
+    "the burn theorems are for equal steps (fixed-step methods, or an embedded pair whose tolerance is never exceeded) and a thrust vector constant in the frame of the "
+    "propagation (frame=None); stage dates are `step * c` rounded to the microsecond as timedelta.__mul__(float) rounds (tied exactly by correspondence)",
+    "first-order realisation of (di, dOmega) is stated at the argument of latitude given by dkep2aol, one-sidedly in the scale s >= 0 of the request, with the factor v/vt "
+    "(1 at an apsis / on a circular orbit, flight-path angle 0, as the docstring prescribes); 0 < i < pi",
+    "frame names are ASCII (str.upper = Char.toUpper per character; 'ſ'.upper() == 'S' in Python is outside the model)",
+    "a bare StateVector given as reference is used at its own date unless it is expressed in EME2000 and the parent is EME2000 (the library converts it at its own date and "
+    "uses the result at the date of the call: frames / property C02); sessions of the registry model start from registries emptied by the harness (forget_frames)",
 ]
 NOT_COVERED = [
-    "delivered delta-v of a continuous burn through Runge-Kutta stage sampling of the on/off switch (quadrature): oracle only; exact only for burns lasting a "
-    "whole number of fixed steps, otherwise off by up to one step's worth of thrust (known finding C17-continuous-burn-step-sampling)",
-    "realised (di, dOmega) from the out-of-plane impulse (Gauss planetary equations): oracle only (error within 20 x second order on 1e-7..0.3 rad)",
+    "delivered delta-v of a QSW/TNW continuous burn (thrust direction following the state from stage to stage) and of any burn under the adaptive step control: oracle only "
+    "(gravity-free propagations, bound of one step's worth)",
+    "the second-order remainder of the realised (da, di, dOmega): oracle only (error within 20 x second order on 1e-7..0.3 rad)",
     "states interpolated by Ephem (orb.propagate(date), iter with a step other than the propagator's) within 4 steps of an impulse are Lagrange-interpolated "
     "across the velocity jump (measured: 67 % error of the jump one half step after it, 0.5 m/s of a 1 m/s impulse visible one half step before its date); "
     "the theorems and the oracle speak about the integration grid (real steps) only; interpolation is property C09",
+    "an Orbit without propagator given as reference of orbit2frame raises UnknownPropagatorError at the first conversion (hasattr(offset, 'propagate') is true): not in the "
+    "statement; a rotating parent (ITRF) gives other QSW/TNW axes (velocity relative to the rotating frame): the docstring asks for an inertial parent",
+    "frame names the code does not know as local (RSW, LVLH, RTN, any typo) are silently taken as 'the axes of the orbit's frame' by ImpulsiveMan / ContinuousMan "
+    "(other_names_select_identity states it; the property statement speaks of QSW/TNW/inertial only; CCSDS files: property C13)",
 ]
 OPEN = [
-    "whole_steps_full_dv (a burn lasting n fixed steps from a grid date delivers n*h*accel for Euler/RK4) is checked by the oracle (1e-9) and witnessed for one "
-    "instance (whole_step_burn_rk4); not stated as a general theorem",
+    "C17-continuous-burn-step-sampling, C17-burn-from-first-date, C17-reregistered-under-other-parent (open findings with proposed fixes)",
+    "variable steps: for a burn whose start and stop fall on an adaptive grid the delivered thrust time is duration + B1 * (step before the burn - last step of the burn) "
+    "(B1 = weight of the stages dated at the end of a step): derived on paper, not stated in Lean",
 ]
 RULE = ("correspondence: to_local on random elliptic/hyperbolic/retrograde states (radii 1 m .. 3.8e8 m) and an unknown tag; ImpulsiveMan.dv / ContinuousMan.accel "
-        "(accel= and dv=) for tags QSW/TNW/lowercase/None/other; KeplerianImpulsiveMan.dv, dkep2dv, dkep2aol on increments 1e-3 m..2e6 m, 1e-7..0.3 rad; "
-        "orbit2frame sessions (names registered, used at recurring dates, re-registered from another orbit / orientation, used again: binding from the registry "
-        "model, values from frameTo/frameFrom); ImpulsiveMan.check on real Dates over random step lists (ms granularity; on/off grid, outside the span, zero/negative "
+        "(accel= and dv=, every date_pos) for tags QSW/TNW/lowercase/None/other, each maneuver object evaluated on a first state, a second one and the first again; "
+        "KeplerianImpulsiveMan.dv, KeplerianContinuousMan.accel (durations with fractional seconds and above a day), dkep2dv, dkep2aol on increments 1e-3 m..2e6 m, "
+        "1e-7..0.3 rad; orbit2frame sessions (names registered — under the default and under other parents —, used at recurring dates, re-registered from another orbit / "
+        "orientation / parent, used again: binding from the registry model, values from frameTo/frameFrom); world sessions over Orbit / Ephem / StateVector references in "
+        "EME2000, MOD, TOD, TEME, ITRF, cartesian or keplerian, registered by orbit2frame or as_frame (what each conversion reads, the reference object compared bit for "
+        "bit after every operation); ImpulsiveMan.check on real Dates over random step lists (ms granularity; on/off grid, outside the span, zero/negative "
         "steps); impulses applied per step by the real KeplerNum loop (instrumented dv, 4 methods, up to 4 maneuvers); ContinuousMan.check at the stage dates of the "
-        "4 Butcher tableaux — all against the compiled Lean model; non-trivial = non-zero vector / increment; distinct = distinct request. "
+        "4 Butcher tableaux; `step * c` for every node on random steps (1 us .. 1000 s, odd, tiny); delivered delta-v of gravity-free propagations with all four tableaux "
+        "(burns of whole steps incl. from the first date, at stage dates +-1 ms, anywhere) vs the quadrature model; KeplerNum._accel with 0..4 attracting bodies (Earth, Moon, "
+        "Sun, fixed fake bodies, repeated) and 0..3 maneuvers (on, off, impulsive); 29+ frame names through ImpulsiveMan, ContinuousMan, to_local, orbit2frame; inclination / "
+        "node slices vs the keplerian form — all against the compiled Lean model; non-trivial = non-zero vector / increment; distinct = distinct request. "
         "oracle: theorem statements on the real API incl. per-step velocity jumps of KeplerNum vs a maneuver-free step from the same state, delivered delta-v of "
-        "continuous burns in a gravity-free KeplerNum, realised da/di/dOmega vs requested to first order")
+        "continuous burns in a gravity-free KeplerNum (incl. from the first date), thrust part of _accel vs number of bodies, every case variant of QSW/TNW vs the upper-case "
+        "spelling (bitwise), maneuver objects re-used on another state vs fresh ones, arguments in keplerian/spherical form left untouched, date_pos placing start/median/stop, "
+        "references of three classes in five frames unchanged after conversions and repeated conversions bitwise equal, re-registration under other parents, "
+        "|KeplerianContinuousMan.accel| x duration = |dkep2dv|, realised da/di/dOmega vs requested to first order")
 
 LOCAL_PY = os.path.join(core.REPO, "beyond", "frames", "local.py")
 MAN_PY = os.path.join(core.REPO, "beyond", "orbits", "man.py")
+KN_PY = os.path.join(core.REPO, "beyond", "propagators", "keplernum.py")
+FRAMES_PY = os.path.join(core.REPO, "beyond", "frames", "frames.py")
+ORIENT_PY = os.path.join(core.REPO, "beyond", "frames", "orient.py")
+FORMS_PY = os.path.join(core.REPO, "beyond", "orbits", "forms.py")
 MU = 3.986004418e14
 
 
@@ -106,6 +176,291 @@ def _ret_of(tree, qualname):
     if len(rets) != 1:
         raise py2lean.Untranslatable(f"{qualname}: expected a single top-level return")
     return fn, rets[0].value
+
+
+def _n(node):
+    """source text of a node, blanks removed, identifiers NFKC-normalised as Python's parser does"""
+    import unicodedata
+    return unicodedata.normalize("NFKC", ast.unparse(node)).replace(" ", "")
+
+
+def _body_nodoc(fn):
+    b = list(fn.body)
+    if b and isinstance(b[0], ast.Expr) and isinstance(b[0].value, ast.Constant) and isinstance(b[0].value.value, str):
+        b = b[1:]
+    return b
+
+
+def _lstr(x):
+    """a name as the Lean list of its characters"""
+    if not x.isascii() or not x.isprintable() or "'" in x or "\\" in x:
+        raise py2lean.Untranslatable(f"frame name {x!r} is not plain ASCII")
+    return "[" + ", ".join(f"'{c}'" for c in x) + "]"
+
+
+# ---- (a) Butcher tableaux: nodes as the exact ratios of the floats (so that `step * c` rounds as in Python), weights as
+#          integers over their common denominator
+def extract_butcher():
+    from fractions import Fraction
+    from math import lcm
+    from beyond.propagators.keplernum import KeplerNum
+    lines = []
+    for meth in ("euler", "rk4", "rkf54", "dopri54"):
+        tb = KeplerNum.BUTCHER[meth]
+        cc = [float(c) for c in tb["c"]]
+        bb = [float(b) for b in tb["b"]]
+        if len(cc) != len(bb):
+            raise RuntimeError(f"Butcher tableau {meth}: {len(cc)} nodes for {len(bb)} weights")
+        ratios = [c.as_integer_ratio() for c in cc]
+        lines.append(f"def butcherC_{meth} : List (Int × Int) := [" + ", ".join(f"({a}, {b})" for a, b in ratios) + "]")
+        fb = [Fraction(b).limit_denominator(1000000) for b in bb]
+        if any(abs(float(f) - b) > 1e-15 for f, b in zip(fb, bb)):
+            raise RuntimeError("Butcher weights are not small fractions")
+        den = lcm(*[f.denominator for f in fb])
+        lines.append(f"def butcherW_{meth} : List Int := [" + ", ".join(str(int(f * den)) for f in fb) + "]")
+        lines.append(f"def butcherD_{meth} : Int := {den}")
+    return "\n".join(lines)
+
+
+# ---- (b) loop structure of KeplerNum._accel
+GRAV_STMTS = ["orb_body=body.propagate(orb.date)", "orb_body.frame=orb.frame", "diff=orb_body[:3]-orb[:3]", "norm=linalg.norm(diff)**3",
+              "new_body[3:]+=body.μ*diff/norm"]
+THRUST_TEST = "isinstance(man,ContinuousMan)andman.check(orb.date)"
+THRUST_ADD = "new_body[3:]+=man.accel(orb)"
+
+
+def _accel_block(stmts, in_body, in_man, depth):
+    """items of one loop body: ('grav',) | ('thrust',) | ('bodies', [...]) | ('mans', [...]); refuses anything else"""
+    items = []
+    k = 0
+    while k < len(stmts):
+        st = stmts[k]
+        if _n(st) == GRAV_STMTS[0]:
+            got = [_n(x) for x in stmts[k:k + len(GRAV_STMTS)]]
+            if got != GRAV_STMTS:
+                raise py2lean.Untranslatable(f"_accel: the attraction of a body is no longer computed by {GRAV_STMTS}: {got}")
+            if not in_body:
+                raise py2lean.Untranslatable("_accel: attraction computed outside `for body in self.bodies`")
+            items.append(("grav",))
+            k += len(GRAV_STMTS)
+            continue
+        if isinstance(st, ast.If):
+            if _n(st.test) != THRUST_TEST or st.orelse or [_n(x) for x in st.body] != [THRUST_ADD]:
+                raise py2lean.Untranslatable("_accel: unknown conditional " + _n(st)[:120])
+            if not in_man:
+                raise py2lean.Untranslatable("_accel: thrust added outside `for man in self.orbit.maneuvers`")
+            items.append(("thrust",))
+            k += 1
+            continue
+        if isinstance(st, ast.For):
+            if depth >= 2:
+                raise py2lean.Untranslatable("_accel: loops nested more than two deep")
+            items.append(_accel_loop(st, in_body, in_man, depth))
+            k += 1
+            continue
+        raise py2lean.Untranslatable(f"_accel: unknown statement at line {st.lineno}: " + _n(st)[:120])
+    return items
+
+
+def _accel_loop(st, in_body, in_man, depth):
+    if st.orelse:
+        raise py2lean.Untranslatable("_accel: for/else")
+    head = (_n(st.target), _n(st.iter))
+    if head == ("body", "self.bodies"):
+        return ("bodies", _accel_block(st.body, True, in_man, depth + 1))
+    if head == ("man", "self.orbit.maneuvers"):
+        return ("mans", _accel_block(st.body, in_body, True, depth + 1))
+    raise py2lean.Untranslatable(f"_accel: unknown loop `for {head[0]} in {head[1]}`")
+
+
+def extract_accel_loop(tree):
+    fn = py2lean.find_function(tree, "KeplerNum._accel")
+    if [a.arg for a in fn.args.args] != ["self", "orb"]:
+        raise py2lean.Untranslatable("_accel signature changed")
+    body = _body_nodoc(fn)
+    if [_n(x) for x in body[:2]] != ["new_body=zeros(6)", "new_body[:3]=orb[3:]"] or _n(body[-1]) != "returnnew_body":
+        raise py2lean.Untranslatable("_accel: initialisation / return changed: " + str([_n(x) for x in body[:2]] + [_n(body[-1])]))
+    tops = []
+    for st in body[2:-1]:
+        if not isinstance(st, ast.For):
+            raise py2lean.Untranslatable(f"_accel: top-level statement that is not a loop at line {st.lineno}: " + _n(st)[:120])
+        tops.append(_accel_loop(st, False, False, 0))
+
+    def leaf(it):
+        return "Leaf.grav" if it[0] == "grav" else "Leaf.thrust"
+
+    def inner(it):
+        if it[0] in ("grav", "thrust"):
+            return f"Inner.leaf {leaf(it)}"
+        if any(x[0] not in ("grav", "thrust") for x in it[1]):
+            raise py2lean.Untranslatable("_accel: loops nested more than two deep")
+        return ("Inner.overBodies [" if it[0] == "bodies" else "Inner.overMans [") + ", ".join(leaf(x) for x in it[1]) + "]"
+
+    def top(it):
+        return ("Top.overBodies [" if it[0] == "bodies" else "Top.overMans [") + ", ".join(inner(x) for x in it[1]) + "]"
+    prog = "[" + ", ".join(top(t) for t in tops) + "]"
+    text = ("/- GENERATED by harness/props/C17.py from beyond/propagators/keplernum.py (`KeplerNum._accel`: which loop contains which\n"
+            "   accumulation, nesting as given by the indentation) — do not edit. -/\n"
+            "import BeyondVerif.Model.AccelLoop\nnamespace BeyondVerif.Generated.AccelLoopSrc\nopen BeyondVerif.AccelLoop\n\n"
+            "/-- the statements of `_accel` after `new_body = zeros(6); new_body[:3] = orb[3:]` and before `return new_body` -/\n"
+            f"def accelProg : List Top := {prog}\n\nend BeyondVerif.Generated.AccelLoopSrc\n")
+    grav = ("/-- `diff = orb_body[:3] - orb[:3]; norm = linalg.norm(diff) ** 3; body.µ * diff / norm` (statements matched verbatim) -/\n"
+            "def gravTerm (mu : R) (bodyPos pos : V3) : V3 :=\n"
+            "  let diff : V3 := V3.sub bodyPos pos\n"
+            "  let norm : R := powi (V3.norm diff) 3\n"
+            "  V3.divS (V3.smul mu diff) norm\n")
+    return text, grav
+
+
+# ---- (c) frame names: constructors, projections, to_local, orbit2frame
+def _ctor_upper(tree, cls):
+    fn = py2lean.find_function(tree, cls + ".__init__")
+    upper, assigned = False, False
+    for st in fn.body:
+        txt = _n(st)
+        if isinstance(st, ast.If) and _n(st.test) == "isinstance(frame,str)":
+            if [_n(x) for x in st.body] != ["frame=frame.upper()"] or st.orelse or assigned:
+                raise py2lean.Untranslatable(f"{cls}.__init__: unknown normalisation of `frame`: {txt}")
+            upper = True
+            continue
+        if txt == "self.frame=frame":
+            assigned = True
+            continue
+        for node in ast.walk(st):
+            if (isinstance(node, ast.Name) and node.id == "frame" and isinstance(node.ctx, ast.Store)) or \
+               (isinstance(node, ast.Attribute) and node.attr == "frame" and isinstance(node.ctx, ast.Store)):
+                raise py2lean.Untranslatable(f"{cls}.__init__: `frame` is assigned in an unknown way: {txt[:100]}")
+    if not assigned:
+        raise py2lean.Untranslatable(f"{cls}.__init__ no longer stores self.frame = frame")
+    return upper
+
+
+def _proj_tags(tree, qual, vec):
+    fn = py2lean.find_function(tree, qual)
+    body = [s for s in _body_nodoc(fn) if not (isinstance(s, ast.Expr) and _n(s).startswith("log.debug("))]
+    if len(body) != 4 or not isinstance(body[1], ast.If):
+        raise py2lean.Untranslatable(f"{qual}: unknown shape")
+    iff = body[1]
+    t = iff.test
+    ok = (_n(body[0]) == "orb=orb.copy(form='cartesian')" and isinstance(t, ast.Compare) and _n(t.left) == "self.frame" and len(t.ops) == 1
+          and isinstance(t.ops[0], ast.In) and isinstance(t.comparators[0], (ast.Tuple, ast.List))
+          and all(isinstance(e, ast.Constant) and isinstance(e.value, str) for e in t.comparators[0].elts)
+          and [_n(x) for x in iff.body] == ["mat=to_local(self.frame,orb,expanded=False).T"] and [_n(x) for x in iff.orelse] == ["mat=np.identity(3)"]
+          and _n(body[2]) == f"projected_{vec}=mat@self._{vec}" and _n(body[3]) == f"returnprojected_{vec}")
+    if not ok:
+        raise py2lean.Untranslatable(f"{qual}: the projection is no longer `to_local(self.frame, orb).T if self.frame in (...) else identity`: " + _n(fn)[:300])
+    return [e.value for e in t.comparators[0].elts]
+
+
+def _to_local_table(tree):
+    fn = py2lean.find_function(tree, "to_local")
+    if [a.arg for a in fn.args.args] != ["frame", "orbit", "expanded"]:
+        raise py2lean.Untranslatable("to_local signature changed")
+    body = _body_nodoc(fn)
+    if len(body) != 3 or not isinstance(body[0], ast.If) or _n(body[1]).replace("\n", "") != "ifexpanded:m=expand(m)" or _n(body[2]) != "returnm":
+        raise py2lean.Untranslatable("to_local: unknown shape " + str([_n(x)[:60] for x in body]))
+    table = []
+    node = body[0]
+    while True:
+        t = node.test
+        if not (isinstance(t, ast.Compare) and len(t.ops) == 1 and isinstance(t.ops[0], ast.Eq) and isinstance(t.comparators[0], ast.Constant)
+                and isinstance(t.comparators[0].value, str) and _n(t.left) in ("frame.upper()", "frame")):
+            raise py2lean.Untranslatable("to_local: unknown test " + _n(t))
+        if len(node.body) != 1 or _n(node.body[0]) not in ("m=to_qsw(orbit)", "m=to_tnw(orbit)"):
+            raise py2lean.Untranslatable("to_local: unknown branch " + _n(node)[:100])
+        table.append((t.comparators[0].value, _n(t.left) == "frame.upper()", 0 if "to_qsw" in _n(node.body[0]) else 1))
+        if len(node.orelse) == 1 and isinstance(node.orelse[0], ast.If):
+            node = node.orelse[0]
+            continue
+        if len(node.orelse) == 1 and isinstance(node.orelse[0], ast.Raise) and _n(node.orelse[0]).startswith("raiseValueError("):
+            break
+        raise py2lean.Untranslatable("to_local: the chain does not end in `raise ValueError`")
+    return table
+
+
+def _orbit2frame_tags(tree_frames, tree_orient):
+    fn = py2lean.find_function(tree_frames, "orbit2frame")
+    iff = [s for s in fn.body if isinstance(s, ast.If) and _n(s.test) == "orientationisNone"]
+    if len(iff) != 1 or [_n(x) for x in iff[0].body] != ["orientation=ref_orbit.frame.orientation"] or len(iff[0].orelse) != 2:
+        raise py2lean.Untranslatable("orbit2frame: unknown handling of `orientation`")
+    chk, mk = iff[0].orelse
+    t = chk.test if isinstance(chk, ast.If) else None
+    if not (t is not None and isinstance(t, ast.Compare) and len(t.ops) == 1 and isinstance(t.ops[0], ast.NotIn) and _n(t.left) in ("orientation.upper()", "orientation")
+            and isinstance(t.comparators[0], (ast.Tuple, ast.List)) and all(isinstance(e, ast.Constant) and isinstance(e.value, str) for e in t.comparators[0].elts)
+            and len(chk.body) == 1 and isinstance(chk.body[0], ast.Raise) and _n(chk.body[0]).startswith("raiseValueError(") and not chk.orelse
+            and _n(mk) == "orientation=orient.LocalOrbitalOrientation(name,ref_orbit,orientation,parent)"):
+        raise py2lean.Untranslatable("orbit2frame: unknown check of the orientation name: " + _n(iff[0])[:300])
+    ini = py2lean.find_function(tree_orient, "LocalOrbitalOrientation.__init__")
+    tp = py2lean.find_function(tree_orient, "LocalOrbitalOrientation._to_parent")
+    if "self.orient=orient" not in [_n(x) for x in ini.body] or _n(tp.body[-1]).replace("(", "").replace(")", "") != "returnlocal.to_localself.orient,sv,expanded=False.T,None":
+        raise py2lean.Untranslatable("LocalOrbitalOrientation no longer hands its `orient` to to_local: " + _n(tp.body[-1]))
+    return [e.value for e in t.comparators[0].elts], _n(t.left) == "orientation.upper()"
+
+
+def extract_frame_names(tree_man, tree_local, tree_frames, tree_orient):
+    imp_up, cont_up = _ctor_upper(tree_man, "ImpulsiveMan"), _ctor_upper(tree_man, "ContinuousMan")
+    imp_tags, cont_tags = _proj_tags(tree_man, "ImpulsiveMan.dv", "dv"), _proj_tags(tree_man, "ContinuousMan.accel", "accel")
+    table = _to_local_table(tree_local)
+    o2f_tags, o2f_up = _orbit2frame_tags(tree_frames, tree_orient)
+    kc = py2lean.find_function(tree_man, "KeplerianContinuousMan.__init__")
+    first = kc.body[0]
+    if not (isinstance(first, ast.Assign) and _n(first.targets[0]) == "kwargs['frame']" and isinstance(first.value, ast.Constant) and isinstance(first.value.value, str)
+            and _n(kc.body[-1]) == "super().__init__(date,duration,accel=np.zeros(3),**kwargs)"):
+        raise py2lean.Untranslatable("KeplerianContinuousMan.__init__ no longer forces its frame: " + _n(kc)[:200])
+    kd = py2lean.find_function(tree_man, "KeplerianImpulsiveMan.dv")
+    if _n(kd.body[-1]) != "returnto_tnw(orb).T@self._dv":
+        raise py2lean.Untranslatable("KeplerianImpulsiveMan.dv no longer returns to_tnw(orb).T @ self._dv")
+    b = lambda x: "true" if x else "false"   # noqa: E731
+    sl = lambda xs: "[" + ", ".join(_lstr(x) for x in xs) + "]"   # noqa: E731
+    return ("/- GENERATED by harness/props/C17.py from beyond/orbits/man.py, beyond/frames/local.py, beyond/frames/frames.py — do not edit. -/\n"
+            "namespace BeyondVerif.Generated.FrameNames\n\n"
+            "/-- `ImpulsiveMan.__init__` contains `if isinstance(frame, str): frame = frame.upper()` before `self.frame = frame` -/\n"
+            f"def impCtorUpper : Bool := {b(imp_up)}\n"
+            "/-- the same for `ContinuousMan.__init__` -/\n"
+            f"def contCtorUpper : Bool := {b(cont_up)}\n"
+            "/-- `ImpulsiveMan.dv`: `if self.frame in (...)` -/\n"
+            f"def impDvTags : List (List Char) := {sl(imp_tags)}\n"
+            "/-- `ContinuousMan.accel`: `if self.frame in (...)` -/\n"
+            f"def contAccelTags : List (List Char) := {sl(cont_tags)}\n"
+            "/-- `to_local`: the `if/elif` chain, `(constant, compared with frame.upper()?, 0 = to_qsw | 1 = to_tnw)`; else `raise ValueError` -/\n"
+            "def toLocalTable : List (List Char × Bool × Nat) := [" + ", ".join(f"({_lstr(k)}, {b(u)}, {f})" for k, u, f in table) + "]\n"
+            "/-- `orbit2frame`: `if orientation.upper() not in (...): raise ValueError` -/\n"
+            f"def orbit2frameTags : List (List Char) := {sl(o2f_tags)}\n"
+            f"def orbit2frameUpper : Bool := {b(o2f_up)}\n"
+            "/-- `KeplerianContinuousMan.__init__`: `kwargs[\"frame\"] = …` -/\n"
+            f"def kepContForcedFrame : List Char := {_lstr(first.value.value)}\n\n"
+            "end BeyondVerif.Generated.FrameNames\n")
+
+
+# ---- (d) inclination and node direction as Form._cartesian_to_keplerian computes them
+def extract_kep_plane(tree):
+    fn = py2lean.find_function(tree, "Form._cartesian_to_keplerian")
+    keep = {"r", "v", "h", "h_norm"}
+    pre, i_val, om_val = [], None, None
+    for st in fn.body:
+        if not isinstance(st, ast.Assign) or len(st.targets) != 1:
+            continue
+        names = {x.id for x in ast.walk(st.targets[0]) if isinstance(x, ast.Name)}
+        if names and names <= keep:
+            pre.append(st)
+        elif names == {"i"}:
+            i_val = st.value
+        elif names == {"Ω"} or names == {"Ω"}:
+            om_val = st.value
+    if i_val is None or om_val is None:
+        raise py2lean.Untranslatable("_cartesian_to_keplerian: i / Ω not found")
+    if not (isinstance(om_val, ast.BinOp) and isinstance(om_val.op, ast.Mod) and isinstance(om_val.left, ast.Call) and _n(om_val.left.func) in ("arctan2", "np.arctan2")
+            and _n(om_val.right) == "2*np.pi" and len(om_val.left.args) == 2):
+        raise py2lean.Untranslatable("_cartesian_to_keplerian: Ω is no longer arctan2(A, B) % (2π): " + _n(om_val))
+    cargs = [f"c{k}" for k in range(6)]
+    out = []
+    for lean_name, val, doc in (("kepInc", i_val, "`i`"), ("kepNodeY", om_val.left.args[0], "first argument of the `arctan2` giving `Ω`"),
+                                ("kepNodeX", om_val.left.args[1], "second argument of the `arctan2` giving `Ω`")):
+        tr = py2lean.TrFn()
+        tr.vecs["coord"] = list(cargs)
+        body = tr.stmts(pre + [ast.Return(value=val)])
+        out.append(f"/-- {doc} of `Form._cartesian_to_keplerian` (beyond/orbits/forms.py line {fn.lineno}) -/\ndef {lean_name} ({' '.join(cargs)} : R) : R :=\n{py2lean.indent(body)}\n")
+    return "\n".join(out)
 
 
 def extract(ctx):
@@ -138,15 +493,7 @@ def extract(ctx):
     a2 = [a.arg for a in py2lean.find_function(tree, "ContinuousMan.check").args.args]
     if a1 != ["self", "date", "step"] or a2 != ["self", "date"]:
         raise py2lean.Untranslatable(f"check signatures changed: {a1} {a2}")
-    # Butcher nodes c of the fixed/adaptive methods (stage dates = date + c * step), as exact fractions
-    from fractions import Fraction
-    from beyond.propagators.keplernum import KeplerNum
-    cs = []
-    for meth in ("euler", "rk4", "rkf54", "dopri54"):
-        fr = [Fraction(float(c)).limit_denominator(10000) for c in KeplerNum.BUTCHER[meth]["c"]]
-        if any(abs(float(f) - float(c)) > 1e-15 for f, c in zip(fr, KeplerNum.BUTCHER[meth]["c"])):
-            raise RuntimeError("Butcher nodes are not small fractions")
-        cs.append(f"def butcherC_{meth} : List (Int × Int) := [" + ", ".join(f"({f.numerator}, {f.denominator})" for f in fr) + "]")
+    butcher = extract_butcher()
     win = ("/- GENERATED by harness/props/C17.py from beyond/orbits/man.py (ImpulsiveMan.check, ContinuousMan.check) and\n"
            "   beyond/propagators/keplernum.py (Butcher nodes) — do not edit. Dates and steps are integer microseconds. -/\n"
            "namespace BeyondVerif.Generated\n\n"
@@ -156,9 +503,20 @@ def extract(ctx):
            "/-- `ContinuousMan.check(date)` -/\n"
            f"def contCheck (start stop date : Int) : Prop :=\n  {t2}\n\n"
            "instance (start stop date : Int) : Decidable (contCheck start stop date) := by unfold contCheck; exact inferInstance\n\n"
-           "/-- Butcher nodes `c` (numerator, denominator) of KeplerNum.BUTCHER -/\n" + "\n".join(cs) + "\n\nend BeyondVerif.Generated\n")
+           "/-- `KeplerNum.BUTCHER`: nodes `c` as the exact ratios (numerator, denominator) of the floats, weights `b = W / D` -/\n" + butcher + "\n\nend BeyondVerif.Generated\n")
     if core.write_if_changed(os.path.join(core.LEAN, "BeyondVerif", "Generated", "ManWindow.lean"), win):
         ch.append("Generated/ManWindow.lean")
+    # 4. loop structure of KeplerNum._accel -> Generated/AccelLoopSrc.lean (program) and Generated/AccelSrc{F,R}.lean (attraction term)
+    prog, grav = extract_accel_loop(ast.parse(open(KN_PY).read()))
+    if core.write_if_changed(os.path.join(core.LEAN, "BeyondVerif", "Generated", "AccelLoopSrc.lean"), prog):
+        ch.append("Generated/AccelLoopSrc.lean")
+    ch += py2lean.instantiate(core.LEAN, "AccelSrc", grav, "beyond/propagators/keplernum.py", extra_imports=["Model.Vec3"])
+    # 5. frame names -> Generated/FrameNames.lean
+    names = extract_frame_names(tree, ast.parse(open(LOCAL_PY).read()), ast.parse(open(FRAMES_PY).read()), ast.parse(open(ORIENT_PY).read()))
+    if core.write_if_changed(os.path.join(core.LEAN, "BeyondVerif", "Generated", "FrameNames.lean"), names):
+        ch.append("Generated/FrameNames.lean")
+    # 6. inclination / node direction of the cartesian -> keplerian conversion -> Generated/KepPlane{F,R}.lean
+    ch += py2lean.instantiate(core.LEAN, "KepPlane", extract_kep_plane(ast.parse(open(FORMS_PY).read())), "beyond/orbits/forms.py")
     ch += instantiate.main()
     return ch
 
@@ -269,30 +627,31 @@ def correspondence(ctx):
             add(" ".join(["c17.local", tag] + ftoks(x)), lambda rep, inp=inp: rep == "value-error" or out.fail("c17-local", "model accepts a tag the code rejects", inp, observed="value-error", expected=rep))
         else:
             add(" ".join(["c17.local", tag] + ftoks(x)), lambda rep, inp=inp, real=real: cmp_floats(out, "c17-local", "to_local differs from the translated model", inp, real, rep, 1e-12))
-    # 2. projections
-    for _ in range(ctx.n(600, 30000)):
-        x = gen_state(rng)
+    # 2. projections; every maneuver object is evaluated on a first state, on a second one, and on the first again
+    #    (the model is a function of the current state: nothing of an earlier evaluation may survive in the object)
+    for _ in range(ctx.n(300, 15000)):
         d = gen_vec(rng)
         tag = rng.choice(["QSW", "TNW", "qsw", None, "EME2000", "RSW"])
         up = tag.upper() if isinstance(tag, str) else None
         mt = up if up in ("QSW", "TNW") else "-"
-        orb = mk_orbit(x)
         kind = rng.choice(["impulse", "accel", "accdv"])
-        inp = {"kind": kind, "frame": tag, "state": x, "vector": d}
         mag = norm(d)
+        dur = rng.choice([1.0, 60.0, 90.5, 3600.0, 0.25, 172800.25])
         if kind == "impulse":
-            real = ImpulsiveMan(d0, d, frame=tag).dv(orb)
-            req = ["c17.proj", mt] + ftoks(x) + ftoks(d)
+            man = ImpulsiveMan(d0, d, frame=tag)
         elif kind == "accel":
-            real = ContinuousMan(d0, timedelta(seconds=60), accel=d, frame=tag).accel(orb)
-            req = ["c17.proj", mt] + ftoks(x) + ftoks(d)
+            man = ContinuousMan(d0, timedelta(seconds=60), accel=d, frame=tag)
         else:
-            dur = rng.choice([1.0, 60.0, 90.5, 3600.0, 0.25])
-            real = ContinuousMan(d0, timedelta(seconds=dur), dv=d, frame=tag).accel(orb)
-            req = ["c17.accdv", mt] + ftoks(x) + ftoks(d) + [f2b(dur)]
+            man = ContinuousMan(d0, timedelta(seconds=dur), dv=d, frame=tag, date_pos=rng.choice(["start", "stop", "median"]))
             mag /= dur
-        out.count(key=(kind, str(tag), tuple(x), tuple(d)), kind=f"proj-{kind}-{mt}")
-        add(" ".join(req), lambda rep, inp=inp, real=real, mag=mag: cmp_floats(out, "c17-projection", "projected vector differs from the model", inp, real, rep, 1e-12 * mag + 1e-300))
+        xs = [gen_state(rng), gen_state(rng)]
+        for visit, x in enumerate([xs[0], xs[1], xs[0]]):
+            orb = mk_orbit(x)
+            inp = {"kind": kind, "frame": tag, "state": x, "vector": d, "evaluation_of_this_object": visit}
+            real = man.dv(orb) if kind == "impulse" else man.accel(orb)
+            req = ["c17.accdv" if kind == "accdv" else "c17.proj", mt] + ftoks(x) + ftoks(d) + ([f2b(dur)] if kind == "accdv" else [])
+            out.count(key=(kind, str(tag), tuple(x), tuple(d), visit), kind=f"proj-{kind}-{mt}", visit=visit)
+            add(" ".join(req), lambda rep, inp=inp, real=real, mag=mag: cmp_floats(out, "c17-projection", "projected vector differs from the model", inp, real, rep, 1e-12 * mag + 1e-300))
     # 3. KeplerianImpulsiveMan.dv = to_tnw(orb).T @ _dv, and dkep2dv / dkep2aol themselves
     for _ in range(ctx.n(600, 30000)):
         da, di, dO = gen_incr(rng)
@@ -327,6 +686,15 @@ def correspondence(ctx):
             if not core.close(dvv[2], mdvw, rtol=1e-9, atol=1e-300):
                 out.fail("c17-dkep", "dv_w differs between dkep2dv and the translated model", inp, observed=dvv, expected=[mdvt, 0.0, mdvw])
         add(" ".join(["c17.dkep"] + ftoks([mu, a, i, v, da, di, dO])), chk)
+        from beyond.orbits.man import KeplerianContinuousMan
+        kdur = rng.choice([60.0, 90.5, 600.0, 0.75, 172800.25])
+        kman = KeplerianContinuousMan(d0, timedelta(seconds=kdur), da=da, di=di, dOmega=dO, date_pos=rng.choice(["start", "stop", "median"]))
+        kreal = kman.accel(orbc)
+        if finite:
+            out.count(key=("kcont", tuple(kep), da, di, dO, kdur), kind="kep-continuous", duration=kdur)
+            add(" ".join(["c17.kcont"] + ftoks(x) + ftoks([mu, a, i, v, da, di, dO, kdur])),
+                lambda rep, inp=dict(inp, duration=kdur), real=kreal, m=norm(dvv) / kdur, v=v, kdur=kdur: cmp_floats(
+                    out, "c17-kepcont", "KeplerianContinuousMan.accel differs from to_tnw^T (dkep2dv / duration)", inp, real, rep, 1e-12 * m + 64 * 2.3e-16 * v / kdur + 1e-300))
         real_aol = float(dkep2aol(orbc, di, dO))
         add(" ".join(["c17.aol"] + ftoks([i, di, dO])), lambda rep, inp=inp, r=real_aol: cmp_floats(out, "c17-aol", "dkep2aol differs from the model", inp, [r], rep, 1e-12))
     # 4. orbit-attached frames, as sessions: names are registered, used at a few recurring dates, registered again from
@@ -335,19 +703,28 @@ def correspondence(ctx):
     from beyond.orbits import Orbit
     sess_reqs, sess_meta = [], []
     for sidx in range(ctx.n(10, 60)):
+        forget_frames()
         _FRAME_SEQ[0] += 1
-        names = [f"C17S{_FRAME_SEQ[0] % 7}{c}" for c in "ab"]
+        # names are not shared between sessions: what an earlier session registered under a name stays in the orientation graph
+        # (open finding C17-reregistered-under-other-parent) and the registry model of a session starts empty
+        names = [f"C17S{_FRAME_SEQ[0]}{c}" for c in "ab"]
         orbits = [gen_ref_orbit(rng, d0) for _ in range(3)]
         dates = [d0 + timedelta(seconds=t) for t in (0.0, q6(rng.uniform(-3000, 3000)), q6(rng.uniform(0, 86400)))]
         toks, convs, bound = [], [], set()
         for _ in range(ctx.n(10, 14)):
             name = rng.choice(names)
-            if name not in bound or rng.random() < 0.3:
+            if name not in bound or rng.random() < 0.35:
                 oid = rng.randrange(len(orbits))
                 ori = rng.choice(["QSW", "TNW", "QSW", "TNW", None])
-                orbit2frame(name, orbits[oid][1], orientation=ori, exists_warning=False)
+                # the `parent` option: mostly the default, sometimes another inertial frame (number of orientation links to EME2000)
+                pname, pdist = rng.choice([("EME2000", 0)] * 3 + [("MOD", 1), ("TOD", 2), ("TEME", 3)])
+                if pdist:
+                    from beyond.frames.frames import get_frame
+                    orbit2frame(name, orbits[oid][1], orientation=ori, parent=get_frame(pname), exists_warning=False)
+                else:
+                    orbit2frame(name, orbits[oid][1], orientation=ori, exists_warning=False)
                 bound.add(name)
-                toks += ["reg", name, ori or "-", str(oid)]
+                toks += ["reg", name, ori or "-", f"{oid}@{pdist}"]
                 continue
             date = rng.choice(dates)
             direction = rng.choice(["to", "from"])
@@ -369,15 +746,23 @@ def correspondence(ctx):
             out.fail("c17-frame-session", "registry model returned a wrong number of bindings: " + rep[:80], {"session": toks}); continue
         seen = {}
         for (name, date, direction, x, real), ent in zip(convs, ents):
-            mt, oid = ent.split(":") if ":" in ent else ("?", "0")
+            latest, into = ent.split("/") if "/" in ent else ("?:0", "?:0")
+            # origin (centre link) and conversions out of the frame: the latest registration; axes of a conversion into it:
+            # the registration the registry model names (the latest one unless the name was registered under several parents)
+            use = into if direction == "to" else latest
+            mt, oid = use.split(":") if ":" in use else ("?", "0")
             kep, ref = orbits[int(oid)]
             refc = list(map(float, ref.propagate(date).copy(form="cartesian")))
+            orig = list(map(float, orbits[int(latest.split(":")[1])][1].propagate(date).copy(form="cartesian"))) if ":" in latest else refc
             sr, sv = norm(refc[:3]), norm(refc[3:])
             rebound = seen.get((name, str(date)), ent) != ent
             seen[(name, str(date))] = ent
+            stale = direction == "to" and into != latest
             inp = {"session": " ".join(toks), "frame": name, "binding": ent, "ref_kep": kep, "date": str(date), "direction": direction, "state": x,
                    "same_name_and_date_used_before_with_another_binding": rebound}
-            out.count(key=("sess", name, str(date), direction, tuple(x)), kind=f"frame-{direction}-{mt}", rebound_same_date=rebound)
+            out.count(key=("sess", name, str(date), direction, tuple(x)), kind=f"frame-{direction}-{mt}", rebound_same_date=rebound, axes_of_an_earlier_registration=stale)
+            # M_axes (x - x_origin) = M_axes ((x - x_origin + x_axes) - x_axes)
+            xin = [a - b + c for a, b, c in zip(x, orig, refc)] if stale else x
 
             def chk6(rep2, real=real, inp=inp, sr=sr, sv=sv):
                 if not rep2[0].isdigit():
@@ -385,7 +770,7 @@ def correspondence(ctx):
                 m = [b2f(t) for t in rep2.split()]
                 if not (all(abs(a - b) <= 1e-9 * sr for a, b in zip(real[:3], m[:3])) and all(abs(a - b) <= 1e-9 * sv + 1e-9 for a, b in zip(real[3:], m[3:]))):
                     out.fail("c17-frame", "conversion through an orbit-attached frame differs from the model (binding given by the registry model)", inp, observed=real, expected=m)
-            add(" ".join(["c17." + direction, mt] + ftoks(refc) + ftoks(x)), chk6)
+            add(" ".join(["c17." + direction, mt] + ftoks(refc) + ftoks(xin)), chk6)
     # 5. impulse windows: the loop `date += step` with the real ImpulsiveMan.check on real Dates (integer milliseconds)
     for _ in range(ctx.n(500, 20000)):
         t0 = rng.choice([0, rng.randrange(0, 86_400_000)])
@@ -469,11 +854,344 @@ def correspondence(ctx):
         out.count(key=("cont", method, start, dur, date, step), kind=f"stages-{method}", on="1" in real, all_on="0" not in real)
         add(" ".join(["c17.cont", method, str(start), str(start + dur), str(date), str(step)]),
             lambda rep, real=real, inp=inp: rep == real or out.fail("c17-stages", "ContinuousMan.check at the stage dates differs from the model", inp, observed=real, expected=rep))
+    correspondence2(ctx, out, add, d0)
     replies = core.Driver().run(reqs)
     for req, fn, rep in zip(reqs, checks, replies):
         fn(rep)
         out.sample({"request": req[:100] + "…", "model": rep[:80]}, limit=3)
     return out
+
+
+# ---------------------------------------------------------------- correspondence, second part (quadrature, _accel, names, references)
+
+NAME_POOL = ["QSW", "TNW", "qsw", "tnw", "Qsw", "qSW", "QsW", "Tnw", "tNW", "tnW", "TnW", None, "EME2000", "MOD", "ITRF", "RSW", "rsw", "LVLH", "RTN", "rtn",
+             "", "QSW ", " TNW", "QSWX", "TN", "NTW", "eme2000", "Hill", "QSW\t"]
+
+
+def name_tok(name):
+    if name is None:
+        return "~"
+    if name == "":
+        return "-"
+    return ",".join(str(ord(c)) for c in name)
+
+
+class FakeBody:
+    """an attracting body at a fixed place (only `.µ` and `.propagate(date)` are used by `_accel`)"""
+
+    def __init__(self, mu, pos):
+        self.µ = mu
+        self.pos = list(pos)
+        self.name = "fake"
+
+    def propagate(self, date):
+        from beyond.orbits import StateVector
+        return StateVector(self.pos + [0.0, 0.0, 0.0], date, "cartesian", "EME2000")
+
+
+def gen_bodies(rng, d0):
+    from beyond.env.solarsystem import get_body
+    k = rng.choice([0, 1, 1, 2, 3, 3, 4])
+    out = []
+    for _ in range(k):
+        c = rng.random()
+        if c < 0.5:
+            out.append(get_body(rng.choice(["Earth", "Moon", "Sun"])))
+        else:
+            out.append(FakeBody(10 ** rng.uniform(10, 15), [x * 10 ** rng.uniform(7.5, 9) for x in rand_unit(rng)]))
+    return out
+
+
+def snapshot(ref):
+    """what a conversion can observe of a reference object: class, frame, form, coordinates (bit patterns), date(s)"""
+    from beyond.orbits.ephem import Ephem
+    if isinstance(ref, Ephem):
+        pts = [ref[0], ref[-1]]
+        kind = "Ephem"
+    else:
+        pts = [ref]
+        kind = type(ref).__name__
+    coords = []
+    for pt in pts:
+        coords += [f2b(float(v)) for v in pt] + [f2b(float(pt.date._mjd))]
+    return kind, str(pts[0].frame), str(pts[0].form.name), coords + [str(len(ref))] if kind == "Ephem" else coords
+
+
+def gen_reference(rng, d0):
+    """(kind, pristine copy, live object): an Orbit with the Kepler propagator, an Ephem or a plain StateVector, expressed in the
+    parent frame (EME2000) or in another one, in cartesian or keplerian form"""
+    from beyond.dates import timedelta
+    from beyond.orbits import StateVector
+    kep, orb = gen_ref_orbit(rng, d0)
+    kind = rng.choice(["Orbit", "Ephem", "StateVector"])
+    frame = rng.choice(["EME2000", "EME2000", "MOD", "TEME", "ITRF", "TOD"])
+    form = rng.choice(["cartesian", "keplerian"]) if frame not in ("ITRF",) else "cartesian"
+
+    def make():
+        o = mk_orbit(kep, "keplerian", orb.propagator.copy(), d0)
+        if kind == "Ephem":
+            e = o.ephem(start=d0 - timedelta(seconds=4000), stop=timedelta(seconds=92000), step=timedelta(seconds=180))
+            if frame != "EME2000":
+                e.frame = frame
+            return e
+        if kind == "StateVector":
+            sv = StateVector(list(map(float, o.copy(form="cartesian"))), d0, "cartesian", "EME2000")
+            if frame != "EME2000":
+                sv.frame = frame
+            if form != "cartesian":
+                sv.form = form
+            return sv
+        if frame != "EME2000":
+            o.frame = frame
+        if form != "keplerian":
+            o.form = form
+        return o
+    return {"kind": kind, "frame": frame, "form": form, "kep": kep}, make(), make()
+
+
+def ref_state(pristine, date, frame="EME2000"):
+    """cartesian state of the reference at `date` in `frame`, from a copy the frames never saw"""
+    st = pristine.propagate(date) if hasattr(pristine, "propagate") else pristine
+    return list(map(float, st.copy(form="cartesian", frame=frame)))
+
+
+def correspondence2(ctx, out, add, d0):
+    import numpy as np
+    from beyond.dates import timedelta
+    from beyond.frames.local import to_local, to_qsw, to_tnw
+    from beyond.frames.frames import orbit2frame
+    from beyond.orbits import Orbit
+    from beyond.orbits.man import ImpulsiveMan, ContinuousMan
+    from beyond.propagators.keplernum import KeplerNum
+    rng = ctx.rng
+    # 8. stage dates: `step * c` (timedelta x float) for every node of the four tableaux
+    for _ in range(ctx.n(300, 6000)):
+        method = rng.choice(["rk4", "euler", "dopri54", "rkf54"])
+        cc = float(rng.choice(list(KeplerNum.BUTCHER[method]["c"])))
+        h = rng.choice([rng.randrange(1, 50), rng.randrange(1, 10 ** 9), 60_000_000, 4680_000 * rng.randrange(1, 30), 2 * rng.randrange(1, 10 ** 6) + 1])
+        real = (timedelta(microseconds=h) * cc) // timedelta(microseconds=1)
+        num, den = cc.as_integer_ratio()
+        inp = {"method": method, "c": cc, "step_us": h}
+        out.count(key=("offset", cc, h), kind=f"stage-offset-{method}", exact=(h * num) % den == 0)
+        add(f"c17.offset {num} {den} {h}", lambda rep, real=real, inp=inp: rep == str(real) or out.fail("c17-stage-offset", "step * c differs from the model (divide and round half to even)", inp, observed=real, expected=rep))
+    # 9. delivered delta-v of a burn in the real step loop (gravity-free, inertial thrust vector) vs the quadrature model
+    for _ in range(ctx.n(50, 1500)):
+        method = rng.choice(["rk4", "rk4", "euler", "dopri54", "rkf54"])
+        base = 4680 if method in ("dopri54", "rkf54") else rng.choice([1000, 2000, 4680, 30000])
+        h = base * rng.randrange(1, 26 if base > 2000 else 60)
+        n = rng.randrange(2, 14)
+        c = rng.random()
+        if c < 0.35:     # whole steps from a grid date, the first date included
+            p = rng.choice([0, 0, 1, 2, rng.randrange(0, n)])
+            start, dur = p * h, h * rng.randrange(1, max(2, n - p + 1))
+            kind = "whole-steps-from-first-date" if p == 0 else "whole-steps"
+        elif c < 0.6:    # at a stage date +- 1 ms
+            cc = float(rng.choice(list(KeplerNum.BUTCHER[method]["c"])))
+            start = h * rng.randrange(0, n) + round(h * cc) + rng.choice([0, 1, -1])
+            dur = rng.choice([h, h // 2, 1, rng.randrange(1, 3 * h)])
+            kind = "at-stage-date"
+        else:
+            start, dur = rng.randrange(-h, n * h), rng.randrange(1, 4 * h)
+            kind = "anywhere"
+        acc = [x * 10 ** rng.uniform(-4, -2) for x in rand_unit(rng)]
+        prop = KeplerNum(timedelta(milliseconds=h), [], method=method, tol=1e12)    # tol: the adaptive tableaux keep the nominal step
+        orb = mk_orbit([7e6, 1e5, 2e5, 100.0, 7000.0, 300.0], "cartesian", prop, d0)
+        by_dv = rng.random() < 0.3
+        orb.maneuvers = [ContinuousMan(ms_date(d0, start), timedelta(milliseconds=dur), **({"dv": [a * dur / 1000 for a in acc]} if by_dv else {"accel": acc}))]
+        pts = list(orb.iter(stop=timedelta(milliseconds=h * n)))
+        steps = [round((b.date - a.date).total_seconds() * 1e6) for a, b in zip(pts[:-1], pts[1:])]
+        dv = [float(pts[-1][3 + j] - pts[0][3 + j]) for j in range(3)]
+        inp = {"method": method, "step_ms": h, "nsteps": n, "start_ms": start, "duration_ms": dur, "accel": acc, "by_dv": by_dv}
+        out.count(key=("thrust", method, h, n, start, dur), kind=f"thrust-{method}-{kind}")
+        if any(st != h * 1000 for st in steps) or len(steps) != n:
+            out.fail("c17-thrust", "the step loop did not take the nominal steps", inp, observed=steps[:20])
+            continue
+
+        def chk(rep, dv=dv, acc=acc, inp=inp, dur=dur):
+            try:
+                units, den = [int(t) for t in rep.split()]
+            except ValueError:
+                out.fail("c17-thrust", "model rejected the request: " + rep, inp); return
+            tt = units / den * 1e-6
+            exp = [a * tt for a in acc]
+            if not all(abs(a - b) <= 1e-9 * norm(acc) * (abs(tt) + dur / 1000) + 1e-12 for a, b in zip(dv, exp)):
+                out.fail("c17-thrust", "velocity change of a gravity-free propagation differs from accel x thrust time of the quadrature model", dict(inp, model_thrust_time_s=tt),
+                         observed=dv, expected=exp)
+        add(" ".join(["c17.thrust", method, str(start * 1000), str((start + dur) * 1000), "0"] + [str(st) for st in steps]), chk)
+    # 10. KeplerNum._accel with several attracting bodies and several maneuvers
+    for _ in range(ctx.n(120, 4000)):
+        x = gen_state(rng)
+        bodies = gen_bodies(rng, d0)
+        prop = KeplerNum(timedelta(seconds=60), bodies)
+        orb = mk_orbit(x, "cartesian", prop, d0)
+        t = rng.randrange(0, 600_000)
+        mans, desc = [], []
+        for _k in range(rng.choice([0, 1, 1, 2, 3])):
+            vec = gen_vec(rng)
+            tag = rng.choice(["QSW", "TNW", "tnw", None, "EME2000"])
+            c = rng.random()
+            if c < 0.2:
+                m = ImpulsiveMan(ms_date(d0, t + rng.choice([0, 1, 30_000])), vec, frame=tag)
+            else:
+                st = t + rng.choice([0, -1, 1, -30_000, 30_000, -59_999])
+                m = ContinuousMan(ms_date(d0, st), timedelta(milliseconds=rng.choice([1, 2, 60_000])), accel=vec, frame=tag)
+            mans.append(m)
+        orb.maneuvers = mans
+        prop.orbit = orb
+        y = prop.orbit.copy()
+        y.date = ms_date(d0, t)
+        real = prop._accel(y)
+        toks = ["c17.accel"] + ftoks(x) + [str(len(bodies))]
+        for b in bodies:
+            bp = b.propagate(y.date)
+            bp.frame = y.frame
+            toks += [f2b(float(b.µ))] + ftoks(list(map(float, bp[:3])))
+        toks.append(str(len(mans)))
+        n_on = 0
+        for m in mans:
+            on = isinstance(m, ContinuousMan) and bool(m.check(y.date))
+            n_on += on
+            up = m.frame if m.frame in ("QSW", "TNW") else "-"
+            vec = m._accel if isinstance(m, ContinuousMan) else m._dv
+            toks += ["1" if on else "0", up] + ftoks(list(map(float, vec)))
+        inp = {"state": x, "date_ms": t, "bodies": [getattr(b, "name", "?") + (str(b.pos) if isinstance(b, FakeBody) else "") for b in bodies],
+               "maneuvers": [repr((type(m).__name__, m.frame)) for m in mans]}
+        out.count(key=("accel", tuple(x), t, len(bodies), len(mans)), kind="accel", n_bodies=len(bodies), n_thrusting=n_on)
+        if list(real[:3]) != list(x[3:]):
+            out.fail("c17-accel", "_accel(orb)[:3] is not the velocity", inp, observed=list(map(float, real[:3])))
+        scale = float(np.linalg.norm(real[3:])) + 1e-30
+        add(" ".join(toks), lambda rep, real=list(map(float, real[3:])), inp=inp, scale=scale: cmp_floats(out, "c17-accel", "_accel differs from the loop program run on the same bodies and maneuvers", inp, real, rep, 1e-12 * scale, rtol=1e-9))
+    # 11. frame names: which matrix a spelling selects
+    forget_frames()
+    xs = [gen_state(rng) for _ in range(3)]
+    for name in NAME_POOL + [rng.choice(["q", "Q"]) + rng.choice(["s", "S"]) + rng.choice(["w", "W"]) for _ in range(ctx.n(4, 40))]:
+        x = rng.choice(xs)
+        orb = mk_orbit(x)
+        vec = [0.3, -1.1, 0.7]
+        cands = {"qsw": np.array(axes_expected("QSW", x)).T @ np.array(vec), "tnw": np.array(axes_expected("TNW", x)).T @ np.array(vec), "identity": np.array(vec)}
+
+        def classify(got):
+            hits = [k for k, v in cands.items() if np.allclose(got, v, rtol=0, atol=1e-12)]
+            return hits[0] if len(hits) == 1 else "unclassified:" + str(list(map(float, got)))
+        for what in ("imp", "cont", "local", "o2f"):
+            if what == "local" and name is None:
+                continue
+            try:
+                if what == "imp":
+                    real = classify(ImpulsiveMan(d0, vec, frame=name).dv(orb))
+                elif what == "cont":
+                    real = classify(ContinuousMan(d0, timedelta(seconds=60), accel=vec, frame=name).accel(orb))
+                elif what == "local":
+                    m = to_local(name, np.array(x), expanded=False)
+                    real = "qsw" if np.array_equal(m, to_qsw(np.array(x))) else "tnw" if np.array_equal(m, to_tnw(np.array(x))) else "unclassified"
+                else:
+                    _FRAME_SEQ[0] += 1
+                    fname = f"C17N{_FRAME_SEQ[0] % 5}"
+                    from beyond.orbits import StateVector
+                    orbit2frame(fname, StateVector(x, d0, "cartesian", "EME2000"), orientation=name, exists_warning=False)
+                    p = np.array(x); p[:3] += np.array(vec)
+                    got = np.array(mk_orbit(list(p)).copy(frame=fname))[:3]
+                    back = {"qsw": np.array(axes_expected("QSW", x)) @ np.array(vec), "tnw": np.array(axes_expected("TNW", x)) @ np.array(vec), "identity": np.array(vec)}
+                    hits = [k for k, v in back.items() if np.allclose(got, v, rtol=0, atol=1e-6)]
+                    real = hits[0] if len(hits) == 1 else "unclassified:" + str(got.tolist())
+            except ValueError:
+                real = "value-error"
+            inp = {"what": what, "name": name, "state": x}
+            out.count(key=("name", what, str(name)), kind=f"name-{what}", selects=real.split(":")[0])
+            add(f"c17.name {what} {name_tok(name)}", lambda rep, real=real, inp=inp: rep == real or out.fail("c17-frame-name", "the matrix selected by a frame name differs from the regenerated name table", inp, observed=real, expected=rep))
+    # 12. reference objects of attached frames: sessions over Orbit / Ephem / StateVector references in and out of the parent frame
+    world_reqs, world_meta = [], []
+    for sidx in range(ctx.n(8, 60)):
+        forget_frames()
+        _FRAME_SEQ[0] += 1
+        names = [f"C17W{_FRAME_SEQ[0] % 7}{c}" for c in "ab"]
+        refs = [gen_reference(rng, d0) for _ in range(3)]
+        dates = [d0 + timedelta(seconds=t) for t in (0.0, q6(rng.uniform(-3000, 3000)), q6(rng.uniform(0, 86400)))]
+        toks, convs, bound = [], [], {}
+        for meta, pristine, live in refs:
+            k, fr, fo, cs = snapshot(pristine)
+            toks += ["ref", k, fr, fo] + cs[:6]
+        toks.append("|")
+        for _ in range(ctx.n(10, 14)):
+            name = rng.choice(names)
+            if name not in bound or rng.random() < 0.25:
+                oid = rng.randrange(len(refs))
+                ori = rng.choice(["QSW", "TNW", "qsw", "TNW", None])
+                if rng.random() < 0.5:
+                    orbit2frame(name, refs[oid][2], orientation=ori, exists_warning=False)
+                else:
+                    refs[oid][2].as_frame(name, orientation=ori, exists_warning=False)
+                bound[name] = (oid, ori)
+                toks += ["reg", name, ori.upper() if ori else "-", str(oid)]
+                continue
+            direction = rng.choice(["to", "from"])
+            oid, ori = bound[name]
+            # a bare StateVector is a point at its own date: in a frame other than the parent it is used at that date only
+            # (the centre link converts it at the date of the call, the orientation at its own date)
+            date = dates[0] if refs[oid][0]["kind"] == "StateVector" and refs[oid][0]["frame"] != "EME2000" else rng.choice(dates)
+            if direction == "to":
+                near = ref_state(refs[rng.randrange(len(refs))][1], date)
+                x = [near[j] + rng.uniform(-1, 1) * 10 ** rng.uniform(0, 6) for j in range(3)] + [near[j] + rng.uniform(-1, 1) * 10 ** rng.uniform(-3, 2) for j in range(3, 6)]
+                real = list(map(float, mk_orbit(x, "cartesian", None, date).copy(frame=name)))
+            else:
+                x = [rng.uniform(-1, 1) * 10 ** rng.uniform(0, 6) for _ in range(3)] + [rng.uniform(-1, 1) * 10 ** rng.uniform(-3, 2) for _ in range(3)]
+                real = list(map(float, Orbit(x, date, "cartesian", name, None).copy(frame="EME2000")))
+            toks += ["conv", name]
+            k, fr, fo, cs = snapshot(refs[oid][2])      # the live reference right after the conversion
+            convs.append((name, date, direction, x, real, f"{k}:{fr}:{fo}:" + ",".join(cs[:6]), oid))
+        world_reqs.append(" ".join(["c17.world"] + toks))
+        world_meta.append((refs, convs, toks))
+    world_replies = core.Driver().run(world_reqs) if world_reqs else []
+    for (refs, convs, toks), rep in zip(world_meta, world_replies):
+        ents = rep.split()
+        if len(ents) != len(convs):
+            out.fail("c17-frame-world", "world model returned a wrong number of readings: " + rep[:80], {"session": " ".join(toks)[:300]}); continue
+        for (name, date, direction, x, real, live_obs, oid), ent in zip(convs, ents):
+            parts = ent.split(":", 2)
+            meta, pristine, live = refs[oid]
+            inp = {"session": " ".join(t for t in toks if not t.isdigit() or len(t) < 6)[:400], "frame": name, "reference": meta, "date": str(date), "direction": direction, "state": x}
+            out.count(key=("world", name, str(date), direction, tuple(x)), kind=f"ref-{meta['kind']}-{meta['frame']}-{meta['form']}", direction=direction)
+            if len(parts) != 3 or int(parts[1]) != oid:
+                out.fail("c17-frame-world", "the conversion used another binding than the world model", inp, observed=oid, expected=ent); continue
+            if parts[2] != live_obs:
+                out.fail("c17-frame-reference-modified", "a conversion through an orbit-attached frame modified the reference object it was created from "
+                         "(class : frame : form : coordinates as bit patterns)", inp, observed=live_obs, expected=parts[2], violates_property=True)
+                continue
+            # orientation=None keeps the axes of the frame the reference is expressed in (not those of the parent): such bindings
+            # are evaluated in that frame F (x and the reference taken to F / the result taken back from F by the library)
+            fr = meta["frame"] if parts[0] == "-" else "EME2000"
+            refc = ref_state(pristine, date, fr)
+            sr, sv = norm(refc[:3]), norm(refc[3:])
+            xin = x
+            if fr != "EME2000" and direction == "to":
+                xin = list(map(float, mk_orbit(x, "cartesian", None, date).copy(frame=fr)))
+
+            def chk6(rep2, real=real, inp=inp, sr=sr, sv=sv, fr=fr, direction=direction, date=date):
+                if not rep2[0].isdigit():
+                    out.fail("c17-frame", "model rejected the request: " + rep2, inp); return
+                m = [b2f(t) for t in rep2.split()]
+                if fr != "EME2000" and direction == "from":
+                    from beyond.orbits import StateVector
+                    m = list(map(float, StateVector(m, date, "cartesian", fr).copy(frame="EME2000")))
+                if not (all(abs(a - b) <= 1e-9 * sr for a, b in zip(real[:3], m[:3])) and all(abs(a - b) <= 1e-9 * sv + 1e-9 for a, b in zip(real[3:], m[3:]))):
+                    out.fail("c17-frame", "conversion through a frame attached to an Orbit / Ephem / StateVector reference differs from the model evaluated on an untouched copy of the reference",
+                             inp, observed=real, expected=m)
+            add(" ".join(["c17." + direction, parts[0]] + ftoks(refc) + ftoks(xin)), chk6)
+    # 13. inclination / node direction slices of the cartesian -> keplerian conversion
+    for _ in range(ctx.n(100, 3000)):
+        x = gen_state(rng)
+        if norm(cross(x[:3], x[3:])[:2]) < 1e-3 * norm(cross(x[:3], x[3:])):
+            continue
+        k = mk_orbit(x).copy(form="keplerian")
+        inp = {"state": x}
+        out.count(key=("kepplane", tuple(x)), kind="kep-plane", state=state_kind(x))
+
+        def chkp(rep, k=k, inp=inp):
+            inc, ny, nx = [b2f(t) for t in rep.split()]
+            om = math.atan2(ny, nx) % (2 * math.pi)
+            if not (core.close(float(k.i), inc, rtol=1e-12, atol=1e-12) and abs(wrap(float(k.Omega) - om)) <= 1e-12):
+                out.fail("c17-kepplane", "inclination / node of the keplerian form differ from the translated slices", inp, observed=[float(k.i), float(k.Omega)], expected=[inc, om])
+        add(" ".join(["c17.kepplane"] + ftoks(x)), chkp)
 
 
 # ---------------------------------------------------------------- oracle parts (real API)
@@ -545,17 +1263,27 @@ def oracle_projection(out, rng, N):
         else:
             exp = np.array(dv)
         mag = norm(dv)
+        x2 = gen_state(rng)
+        orb2 = mk_orbit(x2)
         for kind in ("impulse", "accel", "accel-from-dv"):
             if kind == "impulse":
-                got = ImpulsiveMan(d, dv, frame=tag).dv(orb)
+                man = ImpulsiveMan(d, dv, frame=tag)
+                fresh = lambda: ImpulsiveMan(d, dv, frame=tag)   # noqa: E731
+                call = lambda m, o: m.dv(o)                      # noqa: E731
                 ref, refmag = exp, mag
             elif kind == "accel":
-                got = ContinuousMan(d, timedelta(seconds=120), accel=dv, frame=tag).accel(orb)
+                man = ContinuousMan(d, timedelta(seconds=120), accel=dv, frame=tag)
+                fresh = lambda: ContinuousMan(d, timedelta(seconds=120), accel=dv, frame=tag)   # noqa: E731
+                call = lambda m, o: m.accel(o)                   # noqa: E731
                 ref, refmag = exp, mag
             else:
                 dur = rng.choice([1.0, 60.0, 90.5, 3600.0])
-                got = ContinuousMan(d, timedelta(seconds=dur), dv=dv, frame=tag, date_pos=rng.choice(["start", "stop", "median"])).accel(orb)
+                pos_ = rng.choice(["start", "stop", "median"])
+                man = ContinuousMan(d, timedelta(seconds=dur), dv=dv, frame=tag, date_pos=pos_)
+                fresh = lambda dur=dur, pos_=pos_: ContinuousMan(d, timedelta(seconds=dur), dv=dv, frame=tag, date_pos=pos_)   # noqa: E731
+                call = lambda m, o: m.accel(o)                   # noqa: E731
                 ref, refmag = exp / dur, mag / dur
+            got = call(man, orb)
             out.count(key=(kind, str(tag), tuple(x), tuple(dv)), kind=f"{kind}-{up}", nontrivial=mag > 0)
             inp = {"kind": kind, "frame": tag, "state": x, "vector": dv}
             if not np.all(np.isfinite(got)):
@@ -565,6 +1293,65 @@ def oracle_projection(out, rng, N):
                          observed=float(np.linalg.norm(got)), expected=refmag)
             elif not np.allclose(got, ref, rtol=0, atol=1e-12 * refmag + 1e-300):
                 out.fail(f"projection-direction-{kind}-{up}", "projected vector is not along the stated axes", inp, observed=got.tolist(), expected=ref.tolist())
+            # history: the same object on another state, then on the first again, against a freshly built object
+            got2, want2 = call(man, orb2), call(fresh(), orb2)
+            got3 = call(man, orb)
+            out.count(key=(kind, str(tag), tuple(x), tuple(x2), tuple(dv), "hist"), kind=f"{kind}-{up}-second-state", nontrivial=mag > 0)
+            if not np.array_equal(got2, want2) or not np.array_equal(got3, got):
+                out.fail(f"projection-history-{kind}-{up}", "a maneuver object evaluated on a second state does not answer like a freshly built one "
+                         "(something of the first evaluation survives in the object)", dict(inp, second_state=x2), observed=np.array(got2).tolist(), expected=np.array(want2).tolist())
+            # the argument may be given in any form and is left as it was
+            form = rng.choice(["keplerian", "spherical", "cartesian"])
+            if norm(x[:3]) > 1e6 and (form != "keplerian" or (state_kind(x).startswith("elliptic") and norm(x[3:]) ** 2 * norm(x[:3]) / MU > 0.3)):
+                arg = orb.copy(form=form)
+                b_form, b_arr, b_frame = arg.form.name, np.array(arg).tobytes(), str(arg.frame)
+                gotf = call(fresh(), arg)
+                out.count(key=(kind, str(tag), tuple(x), tuple(dv), form), kind=f"{kind}-{up}-arg-{form}", nontrivial=mag > 0)
+                if (arg.form.name, np.array(arg).tobytes(), str(arg.frame)) != (b_form, b_arr, b_frame):
+                    out.fail(f"projection-argument-modified-{kind}", "the orbit handed to a maneuver is modified by the call", dict(inp, form=form),
+                             observed=[arg.form.name, str(arg.frame)], expected=[b_form, b_frame])
+                elif not np.allclose(gotf, ref, rtol=0, atol=1e-7 * refmag + 1e-300):
+                    out.fail(f"projection-argument-form-{kind}", "the projected vector depends on the form the orbit is given in", dict(inp, form=form),
+                             observed=np.array(gotf).tolist(), expected=ref.tolist())
+
+
+def forget_frames(prefix="C17"):
+    """test isolation: take every frame this module registered (names starting with `prefix`) out of the library's global
+    registries — the graph of orientations, the graph of centres, the methods set on the two classes, `frames.dynamic` — and
+    rebuild the routing tables of what remains.  The library only ever adds nodes (open finding
+    C17-reregistered-under-other-parent); without this the graphs would grow with every session of a run."""
+    try:
+        from beyond.frames import orient, center, frames
+
+        def component(root):
+            seen, todo = [], [root]
+            while todo:
+                n = todo.pop()
+                if n in seen:
+                    continue
+                seen.append(n)
+                todo += list(n.neighbors)
+            return seen
+        for root in (orient.EME2000, center.Earth.node):
+            for n in component(root):
+                for nb in list(n.neighbors):
+                    if nb.name.startswith(prefix):
+                        del n.neighbors[nb]
+            rest = component(root)
+            for n in rest:
+                n.routes = {}
+            for _ in range(len(rest) + 1):
+                root._update()
+        for cls in (orient.Orientation, center.Center):
+            for k in list(vars(cls)):
+                if k.startswith(prefix):
+                    delattr(cls, k)
+        for k in list(frames.dynamic):
+            if k.startswith(prefix):
+                del frames.dynamic[k]
+        getattr(orient.LocalOrbitalOrientation, "_attached", {}).clear()
+    except Exception:   # noqa: BLE001  (a changed library may not have these registries: the sessions then run on what there is)
+        pass
 
 
 _FRAME_SEQ = [0]
@@ -590,6 +1377,7 @@ def oracle_orbit_frame(out, rng, N):
     from beyond.propagators.kepler import Kepler
     d0 = Date(2020, 5, 24)
     for _ in range(N):
+        forget_frames()
         _FRAME_SEQ[0] += 1
         name = f"C17F{_FRAME_SEQ[0] % 7}"
         dates = [d0 + timedelta(seconds=t) for t in (0.0, q6(rng.uniform(-3000, 3000)), q6(rng.uniform(0, 86400)))]
@@ -745,7 +1533,10 @@ def oracle_impulses(out, rng, N):
                          dict(inp, t=ta, t_next=tb), observed=jump.tolist(), expected=exp.tolist())
                 ok = False
                 break
-        if ok and any(c != 1 for c in applied):
+        # with an adaptive method the last yielded point can lie before the requested stop (the step that crosses it is not
+        # given out with real steps): only maneuvers dated up to the last yielded point are claimed
+        t_last = (pts[-1].date - d0).total_seconds()
+        if ok and any(c != 1 for (t, _, _), c in zip(mans, applied) if t <= t_last):
             out.fail(f"impulse-window-count-{method}", "a maneuver date strictly inside the span falls in no / several integration windows", inp, observed=applied)
         on = sum(1 for t, _, _ in mans if abs(t / step - round(t / step)) < 1e-9)
         out.count(key=("imp", method, step, tuple(ts)), kind=f"impulse-{method}", n_man=len(mans), on_grid=on)
@@ -772,7 +1563,7 @@ def oracle_continuous(out, rng, N):
             dur = q6(rng.uniform(1.0, 15.0) * step); kind = "long"
         else:
             dur = q6(rng.uniform(0.02, 1.0) * step); kind = "shorter-than-step"
-        start = rng.choice([step * rng.randrange(1, 6), q6(rng.uniform(0.01, 6) * step)])
+        start = rng.choice([step * rng.randrange(1, 6), q6(rng.uniform(0.01, 6) * step), 0.0 if kind == "whole-steps" else step * rng.randrange(1, 6)])
         on_grid = abs(start / step - round(start / step)) < 1e-12
         acc = [rng.uniform(1e-4, 5e-3), 0.0, 0.0] if tag else [v * rng.uniform(1e-4, 5e-3) for v in rand_unit(rng)]
         dvv = [a * dur for a in acc]
@@ -798,8 +1589,18 @@ def oracle_continuous(out, rng, N):
         rel = abs(delivered - want) / want
         fixed = method in ("rk4", "euler")
         out.count(key=("cont", method, step, start, dur), kind=f"continuous-{method}-{kind}", on_grid=on_grid)
+        closing = float(sum(b for b, c in zip(orb.propagator.butcher["b"], orb.propagator.butcher["c"]) if c == 1))
         if not dirs_ok:
             out.fail(f"continuous-direction-{method}", "thrust is not delivered along the stated axis", inp, observed=(v1 - v0).tolist())
+        elif fixed and kind == "whole-steps" and start == 0 and closing > 0 and rel > 1e-9:
+            # theorem first_date_burn_thrust_time: the current code misses exactly the closing stages of the last step
+            want0 = norm(acc) * (dur - closing * step)
+            if abs(delivered - want0) > 1e-9 * want:
+                out.fail(f"continuous-first-date-{method}", "a burn lasting whole steps from the first date of the propagation delivers neither its full delta-v nor the full one minus "
+                         "the closing-stage weight of one step", inp, observed=float(delivered), expected=want)
+            else:
+                out.fail("continuous-burn-starts-on-first-date", "a continuous burn that starts on the first date of the propagation misses the stage dated at the end of its last step "
+                         f"(weight {closing:.4f} of one step)", inp, observed=float(delivered), expected=want, rel_error=rel)
         elif fixed and kind == "whole-steps" and rel > 1e-9:
             out.fail(f"continuous-whole-steps-{method}", "a burn lasting a whole number of fixed steps does not deliver its full delta-v", inp, observed=float(delivered), expected=want)
         elif rel > step / dur + 1e-9:
@@ -828,20 +1629,20 @@ def oracle_windows(out, rng, N):
             if bool(got) != want:
                 out.fail("impulse-check-boundary", "ImpulsiveMan.check(date, step) is not date < t_m <= date + step",
                          {"date_ms": t, "step_ms": h, "man_ms": t + off}, observed=bool(got), expected=want)
-        man = ContinuousMan(date, step, accel=[1e-3, 0, 0], date_pos=rng.choice(["start", "start", "stop", "median"]))
-        s_ms = round((man.start - d0).total_seconds() * 1000)
-        if h % 2 and man.date_pos == "median":
-            continue
-        for off, want in ((0, True), (-1, False), (h - 1, h > 1 or True), (h, False), (h + 1, False)):
-            if off == h - 1:
-                want = True
+        hh = 2 * ((h + 1) // 2)       # an even number of ms, so that the middle is a whole ms
+        pos_ = rng.choice(["start", "stop", "median", "Start", "MEDIAN"])
+        man = ContinuousMan(date, timedelta(milliseconds=hh), accel=[1e-3, 0, 0], date_pos=pos_)
+        s_ms = t - {"start": 0, "stop": hh, "median": hh // 2}[pos_.lower()]      # what date_pos means
+        for off, want in ((0, True), (-1, False), (hh - 1, True), (hh, False), (hh + 1, False), (hh // 2, True)):
             got = man.check(ms_date(d0, s_ms + off))
-            out.count(key=("ccheck", s_ms, h, off), kind="thrust-check", expected=want)
+            out.count(key=("ccheck", s_ms, hh, off, pos_), kind="thrust-check-" + pos_.lower(), expected=want)
             if bool(got) != want:
-                out.fail("thrust-check-boundary", "ContinuousMan.check(date) is not start <= date < stop",
-                         {"start_ms": s_ms, "duration_ms": h, "date_ms": s_ms + off, "date_pos": man.date_pos}, observed=bool(got), expected=want)
-        if abs((man.stop - man.start).total_seconds() * 1000 - h) > 1e-3 or abs((man.median - man.start).total_seconds() * 2000 - h) > 2e-3:
-            out.fail("thrust-window-length", "stop - start is not the duration / median is not the middle", {"duration_ms": h, "date_pos": man.date_pos})
+                out.fail(f"thrust-check-boundary-{pos_.lower()}", "ContinuousMan.check(date) is not start <= date < stop with start placed as date_pos says",
+                         {"date_ms": t, "duration_ms": hh, "checked_ms": s_ms + off, "date_pos": pos_}, observed=bool(got), expected=want)
+        edges = [round((v - d0).total_seconds() * 1000) for v in (man.start, man.median, man.stop)]
+        if edges != [s_ms, s_ms + hh // 2, s_ms + hh]:
+            out.fail(f"thrust-window-edges-{pos_.lower()}", "start / median / stop of a ContinuousMan are not where date_pos and the duration put them",
+                     {"date_ms": t, "duration_ms": hh, "date_pos": pos_}, observed=edges, expected=[s_ms, s_ms + hh // 2, s_ms + hh])
 
 
 def stable_dkep2dv(v, a, i, da, di, dO, mu=MU):
@@ -940,6 +1741,15 @@ def oracle_dkep(out, rng, N):
                     "out-of-plane component differs from |v_final sin(dangle)|")
             out.fail("dkep2dv-alkashi-cancellation" if explained else "dkep2dv-formula-dv_w", "dkep2dv: " + what, inp, observed=dv.tolist(), expected=sdv)
             continue
+        # a Keplerian continuous maneuver accumulates the same delta-v over its duration
+        from beyond.orbits.man import KeplerianContinuousMan
+        from beyond.dates import Date, timedelta
+        kdur = rng.choice([60.0, 90.5, 0.75, 172800.25])
+        kacc = np.array(KeplerianContinuousMan(Date(2020, 5, 24), timedelta(seconds=kdur), da=da, di=di, dOmega=dO).accel(orbc), dtype=float)
+        out.count(key=("kcont", tuple(kep), da, di, dO, kdur), kind="kep-continuous", duration=kdur)
+        if abs(np.linalg.norm(kacc) * kdur - np.linalg.norm(dv)) > 1e-9 * np.linalg.norm(dv) + 1e-300:
+            out.fail("kep-continuous-magnitude", "KeplerianContinuousMan: |accel| x duration is not |dkep2dv|", dict(inp, duration=kdur), observed=float(np.linalg.norm(kacc) * kdur),
+                     expected=float(np.linalg.norm(dv)))
         # first-order realisation
         new = apply_dv(orbc, dv).copy(form="keplerian")
         old = orbc.copy(form="keplerian")
@@ -955,6 +1765,194 @@ def oracle_dkep(out, rng, N):
             out.fail("dkep2dv-first-order-plane", "realised (di, dOmega) differ from the requested ones beyond second order", inp, observed=[d_i, d_O], expected=[di, dO], tol=tol_ang)
 
 
+def oracle_accel_bodies(out, rng, N):
+    """KeplerNum._accel: what the continuous maneuvers add (evaluation with them minus evaluation without) is the sum of the
+    accelerations of the active ones, whatever the number of attracting bodies (theorem thrust_independent_of_bodies)"""
+    import numpy as np
+    from beyond.dates import Date, timedelta
+    from beyond.orbits.man import ContinuousMan, ImpulsiveMan
+    from beyond.propagators.keplernum import KeplerNum
+    d0 = Date(2020, 5, 24)
+    for _ in range(N):
+        x = gen_state(rng)
+        t = rng.randrange(0, 600_000)
+        mans = []
+        for _k in range(rng.choice([1, 1, 2, 3])):
+            st = t + rng.choice([0, -1, -30_000, -59_999, 1])
+            mans.append(ContinuousMan(ms_date(d0, st), timedelta(milliseconds=60_000), accel=gen_vec(rng), frame=rng.choice(["QSW", "TNW", "tnw", None])))
+        if rng.random() < 0.3:
+            mans.append(ImpulsiveMan(ms_date(d0, t), gen_vec(rng)))
+        per_k = {}
+        for bodies in ([], gen_bodies(rng, d0), gen_bodies(rng, d0) + gen_bodies(rng, d0)):
+            prop = KeplerNum(timedelta(seconds=60), bodies)
+            orb = mk_orbit(x, "cartesian", prop, d0)
+            orb.maneuvers = list(mans)
+            prop.orbit = orb
+            y = prop.orbit.copy()
+            y.date = ms_date(d0, t)
+            with_m = np.array(prop._accel(y), dtype=float)
+            prop.orbit.maneuvers = []
+            without = np.array(prop._accel(y), dtype=float)
+            yc = y.copy(form="cartesian")
+            want = sum((m.accel(yc) for m in mans if isinstance(m, ContinuousMan) and m.check(y.date)), np.zeros(3))
+            got = (with_m - without)[3:]
+            tol = 1e-12 * (np.linalg.norm(without[3:]) + np.linalg.norm(want)) + 1e-300
+            inp = {"state": x, "date_ms": t, "n_bodies": len(bodies), "maneuvers": [(str(m.frame), list(map(float, getattr(m, "_accel", getattr(m, "_dv", []))))) for m in mans]}
+            out.count(key=("accelbodies", tuple(x), t, len(bodies)), kind="accel-thrust-part", n_bodies=len(bodies), active=int(np.linalg.norm(want) > 0))
+            if not np.allclose(got, want, rtol=0, atol=tol):
+                out.fail(f"accel-thrust-depends-on-bodies-{min(len(bodies), 2)}", "the acceleration added by the continuous maneuvers is not the sum of their accelerations "
+                         "(it must not depend on the number of attracting bodies)", inp, observed=got.tolist(), expected=np.array(want).tolist())
+            per_k[len(bodies)] = got
+
+
+def oracle_names(out, rng, N):
+    """every spelling of a local orbital frame accepted by the constructors selects that frame's matrix (bitwise the result of
+    the upper-case spelling); None and the name of an inertial frame leave the vector as stated"""
+    import itertools
+    import numpy as np
+    from beyond.dates import Date, timedelta
+    from beyond.orbits.man import ImpulsiveMan, ContinuousMan
+    d0 = Date(2020, 5, 24)
+    spell = {"QSW": ["".join(t) for t in itertools.product("qQ", "sS", "wW")], "TNW": ["".join(t) for t in itertools.product("tT", "nN", "wW")]}
+    for _ in range(N):
+        x = gen_state(rng)
+        orb = mk_orbit(x)
+        vec = gen_vec(rng)
+        for up, names in spell.items():
+            ref_i = ImpulsiveMan(d0, vec, frame=up).dv(orb)
+            ref_c = ContinuousMan(d0, timedelta(seconds=60), accel=vec, frame=up).accel(orb)
+            axes = np.array(axes_expected(up, x)).T @ np.array(vec)
+            for nm in names:
+                gi = ImpulsiveMan(d0, vec, frame=nm).dv(orb)
+                gc = ContinuousMan(d0, timedelta(seconds=60), accel=vec, frame=nm).accel(orb)
+                out.count(key=("spell", nm, tuple(x), tuple(vec)), kind="name-spelling-" + up, nontrivial=norm(vec) > 0)
+                for cls, got, ref in (("ImpulsiveMan", gi, ref_i), ("ContinuousMan", gc, ref_c)):
+                    if not np.array_equal(got, ref) or not np.allclose(got, axes, rtol=0, atol=1e-12 * norm(vec) + 1e-300):
+                        out.fail(f"frame-name-spelling-{cls}-{up}", f"frame={nm!r} does not select the {up} axes", {"frame": nm, "state": x, "vector": vec},
+                                 observed=np.array(got).tolist(), expected=axes.tolist())
+        for nm in (None, "EME2000", "RSW", "lvlh"):
+            gi = ImpulsiveMan(d0, vec, frame=nm).dv(orb)
+            out.count(key=("spell", str(nm), tuple(x), tuple(vec)), kind="name-spelling-other")
+            if not np.array_equal(gi, np.array(vec)):
+                out.fail("frame-name-other", "a frame name that is not QSW/TNW does not leave the vector in the axes of the orbit's frame", {"frame": nm, "state": x, "vector": vec},
+                         observed=np.array(gi).tolist(), expected=list(vec))
+
+
+def oracle_frame_references(out, rng, N):
+    """frames attached to an Orbit / an Ephem / a bare StateVector, expressed in the parent frame or in another one: the reference
+    is at the origin, conversions round-trip, the same conversion repeated gives the same numbers, and the reference object is
+    left exactly as it was (class, frame, form, coordinates, date)"""
+    import numpy as np
+    from beyond.dates import Date, timedelta
+    from beyond.frames.frames import orbit2frame
+    d0 = Date(2020, 5, 24)
+    for _ in range(N):
+        forget_frames()
+        meta, pristine, live = gen_reference(rng, d0)
+        _FRAME_SEQ[0] += 1
+        name = f"C17R{_FRAME_SEQ[0]}"     # a fresh name: see oracle_reregistration_parent for names used again
+        ori = rng.choice(["QSW", "TNW", "qsw", None])
+        before = snapshot(live)
+        via = rng.choice(["orbit2frame", "as_frame"])
+        parent = rng.choice(["EME2000", "EME2000", "MOD", "TOD", "TEME"])
+        kw = {"orientation": ori, "exists_warning": False}
+        if parent != "EME2000":
+            from beyond.frames.frames import get_frame
+            kw["parent"] = get_frame(parent)
+        if via == "orbit2frame":
+            orbit2frame(name, live, **kw)
+        else:
+            live.as_frame(name, **kw)
+        fam = f"{meta['kind']}-{meta['frame']}"
+        # a bare StateVector is a point at its own date: unless everything is EME2000 it is used at that date only (the library
+        # converts it to the parent at its own date and uses the result at the date of the call)
+        static_elsewhere = meta["kind"] == "StateVector" and (meta["frame"] != "EME2000" or parent != "EME2000")
+        dates = [d0] if static_elsewhere else [d0, d0 + timedelta(seconds=q6(rng.uniform(-3000, 3000))), d0 + timedelta(seconds=q6(rng.uniform(0, 86400)))]
+        for rep in range(2):
+            for date in dates:
+                rc = np.array(ref_state(pristine, date))
+                sr, sv = np.linalg.norm(rc[:3]), np.linalg.norm(rc[3:])
+                inp = {"frame": name, "reference": meta, "orientation": ori, "date": str(date), "pass": rep, "created_by": via, "parent": parent}
+                at0 = np.array(mk_orbit(list(rc), "cartesian", None, date).copy(frame=name))
+                out.count(key=("ref-origin", fam, str(date), ori, rep, tuple(meta["kep"])), kind=f"ref-origin-{fam}", orientation=str(ori))
+                if not (np.all(np.abs(at0[:3]) <= 1e-9 * sr) and np.all(np.abs(at0[3:]) <= 1e-9 * sv + 1e-9)):
+                    out.fail(f"orbit-frame-origin-ref-{fam}", "the reference a frame is attached to is not at that frame's origin", inp, observed=at0.tolist(), expected=[0] * 6)
+                x = rc + np.array([rng.uniform(-1, 1) * 10 ** rng.uniform(0, 6) for _ in range(3)] + [rng.uniform(-1, 1) * 10 ** rng.uniform(-3, 2) for _ in range(3)])
+                o = mk_orbit(list(x), "cartesian", None, date)
+                loc1, loc2 = np.array(o.copy(frame=name)), np.array(o.copy(frame=name))
+                if ori is not None:
+                    m = np.array(axes_expected(ori.upper(), list(rc)))
+                    expl = np.concatenate([m @ (x[:3] - rc[:3]), m @ (x[3:] - rc[3:])])
+                    out.count(key=("ref-axes", fam, str(date), ori, rep, tuple(x)), kind=f"ref-axes-{fam}", created_by=via, parent=parent)
+                    if not (np.allclose(loc1[:3], expl[:3], rtol=0, atol=1e-9 * sr) and np.allclose(loc1[3:], expl[3:], rtol=0, atol=1e-9 * sv + 1e-9)):
+                        out.fail(f"orbit-frame-axes-ref-{fam}-{via}", "coordinates in the attached frame are not M (x - x_ref) with M the local orbital matrix of the reference",
+                                 dict(inp, state=x.tolist()), observed=loc1.tolist(), expected=expl.tolist())
+                back = np.array(o.copy(frame=name).copy(frame="EME2000"))
+                out.count(key=("ref-repeat", fam, str(date), ori, rep, tuple(x)), kind=f"ref-repeat-{fam}")
+                if not np.array_equal(loc1, loc2):
+                    out.fail(f"orbit-frame-repeat-differs-{fam}", "the same conversion into an orbit-attached frame, repeated, gives other numbers", dict(inp, state=x.tolist()),
+                             observed=loc2.tolist(), expected=loc1.tolist())
+                if not (np.allclose(back[:3], x[:3], rtol=0, atol=1e-9 * sr) and np.allclose(back[3:], x[3:], rtol=0, atol=1e-9 * sv + 1e-9)):
+                    out.fail(f"orbit-frame-roundtrip-ref-{fam}", "parent -> attached frame -> parent changes the state", dict(inp, state=x.tolist()), observed=back.tolist(), expected=x.tolist())
+                after = snapshot(live)
+                if after != before:
+                    out.fail(f"orbit-frame-reference-modified-{fam}", "a conversion through an orbit-attached frame modified the reference object the frame was created from",
+                             inp, observed=str(after[:3]), expected=str(before[:3]))
+                    before = after
+
+
+PARENT_DIST = {"EME2000": 0, "MOD": 1, "TOD": 2, "TEME": 3}
+
+
+def oracle_reregistration_parent(out, rng, N):
+    """a name registered under one `parent`, used, and registered again under another (or the same) parent from another orbit:
+    afterwards the frame is the one of the latest registration — origin, axes, round trip.  (Refusing the second registration
+    with a ValueError is accepted.)"""
+    import numpy as np
+    from beyond.dates import Date, timedelta
+    from beyond.frames.frames import orbit2frame, get_frame
+    d0 = Date(2020, 5, 24)
+    for _ in range(N):
+        forget_frames()
+        _FRAME_SEQ[0] += 1
+        name = f"C17P{_FRAME_SEQ[0]}"
+        regs = []
+        for k in range(2):
+            kep, ref = gen_ref_orbit(rng, d0)
+            regs.append((kep, ref, rng.choice(["QSW", "TNW", "QSW", None]), rng.choice(["EME2000", "EME2000", "MOD", "TOD", "TEME"])))
+        date = d0 + timedelta(seconds=q6(rng.uniform(0, 6000)))
+        refused = False
+        for k, (kep, ref, ori, parent) in enumerate(regs):
+            try:
+                orbit2frame(name, ref, orientation=ori, parent=get_frame(parent), exists_warning=False)
+            except ValueError:
+                refused = k > 0 and regs[0][3] != parent
+                if not refused:
+                    out.fail("orbit-frame-registration-raises", "orbit2frame raises ValueError", {"frame": name, "orientation": ori, "parent": parent, "registration": k})
+                break
+            rc = np.array(list(map(float, ref.propagate(date).copy(form="cartesian"))))
+            sr, sv = np.linalg.norm(rc[:3]), np.linalg.norm(rc[3:])
+            x = rc + np.array([rng.uniform(-1, 1) * 10 ** rng.uniform(0, 6) for _ in range(3)] + [rng.uniform(-1, 1) * 10 ** rng.uniform(-3, 2) for _ in range(3)])
+            o = mk_orbit(list(x), "cartesian", None, date)
+            loc = np.array(o.copy(frame=name))
+            back = np.array(o.copy(frame=name).copy(frame="EME2000"))
+            m = np.array(axes_expected(ori, list(rc))) if ori else np.identity(3)
+            expl = np.concatenate([m @ (x[:3] - rc[:3]), m @ (x[3:] - rc[3:])])
+            ok_axes = np.allclose(loc[:3], expl[:3], rtol=0, atol=1e-9 * sr) and np.allclose(loc[3:], expl[3:], rtol=0, atol=1e-9 * sv + 1e-9)
+            ok_rt = np.allclose(back[:3], x[:3], rtol=0, atol=1e-9 * sr) and np.allclose(back[3:], x[3:], rtol=0, atol=1e-9 * sv + 1e-9)
+            p0, p1 = regs[0][3], parent
+            out.count(key=("rereg", name, k), kind="reregistration-parent", registration=k, parents=f"{p0}->{p1}" if k else p1, local=bool(ori))
+            if not (ok_axes and ok_rt):
+                inp = {"frame": name, "first": {"ref_kep": regs[0][0], "orientation": regs[0][2], "parent": p0},
+                       "second": {"ref_kep": kep, "orientation": ori, "parent": p1} if k else None, "date": str(date), "state": x.tolist()}
+                # the earlier registration's node stays in the orientation graph: it is found first when it hangs nearer to the
+                # orientation of the converted state (EME2000) than the new one
+                stale = k == 1 and regs[0][2] and ori and PARENT_DIST[p0] < PARENT_DIST[p1]
+                out.fail("orbit-frame-reregistered-under-other-parent" if stale else f"orbit-frame-reregistration-{'axes' if not ok_axes else 'roundtrip'}",
+                         "after a frame name is registered again, a conversion into the frame does not use the axes of the latest reference / parent -> frame -> parent is not the identity",
+                         inp, observed=loc.tolist(), expected=expl.tolist())
+
+
 def oracle(ctx, widened):
     out = Outcome()
     rng = ctx.rng
@@ -966,6 +1964,10 @@ def oracle(ctx, widened):
     oracle_windows(out, rng, 2000 if big else 200)
     oracle_continuous(out, rng, 300 if big else 40)
     oracle_dkep(out, rng, 3000 if big else 400)
+    oracle_accel_bodies(out, rng, 300 if big else 40)
+    oracle_names(out, rng, 60 if big else 6)
+    oracle_frame_references(out, rng, 80 if big else 12)
+    oracle_reregistration_parent(out, rng, 150 if big else 25)
     return out
 
 
